@@ -11,6 +11,12 @@ API
         .delegations {'add': 'sequence', 'bitor': 'choice'} as found in the operator impls
         .model()     templates usable by regex.build_asbuilt (Thompson's textbook template substituted where a template could not
                      be read; such combinators are listed in .problems)
+        The readers decide on meaning, not shape: calls of small local fns / inherent methods / closures of src/automata.rs are evaluated
+        in place (_LocalDefs, _RoleEval.call_helper, _MergeEval.call_fn/apply), named constants are evaluated, `let`s may be inlined or
+        introduced, operands commute, and the usual equivalent idioms are accepted (adjacent pairs by index / windows(2) / zip+skip(1) /
+        enumerate().skip(1); each operand by for / for_each / index; if-let / match / Option::map on states.get_mut; max by cmp::max /
+        Ord::max / if / match; edge maps rebuilt by map+collect or by a for loop).  Template.extra["eps_inserts"] counts one ε-insert per
+        *evaluation* of an insert site (a helper with one insert called three times = 3).  Anything else still fails closed.
     extract(src, wiring=None) -> {name: Grammar}     (cached per Src object)
         names: one per `impl Matcher for X` (unit structs: 'KittyImageMatcher', …), one per constructed instance of a matcher
         struct with fields ('UTF8Matcher(Printable)', 'UTF8Matcher(NotEscape)'), 'MappedMatcher' (kind 'generic', no rx),
@@ -35,6 +41,7 @@ API
     Typical use in another rule:   g = grammar.extract(ctx.src)["MouseEventMatcher"];  g.minlen, g.prefix, g.suffix;
                                    regex.intersect_witness(g.asbuilt_dfa, other.asbuilt_dfa);  regex.run_parity_witness(g.asbuilt_dfa, hexclass)
 """
+import copy
 import re
 from collections import namedtuple
 
@@ -1170,13 +1177,76 @@ def _int_lit(e):
     return None
 
 
+class _LocalDefs:
+    """Inherent / free fns and consts defined in src/automata.rs (outside tests): the callees the wiring readers may see through.
+       Keys are (base name of the impl self type | None for free items, item name); ambiguous names are not resolved (fail closed)."""
+
+    def __init__(self, src=None):
+        self.fns = {}
+        self.consts = {}
+        if src is None:
+            return
+        for (f, s, tr, it, t) in src.fns:
+            if t or f != AUTOMATA or tr is not None or (s or "").startswith("trait ") or not it.get("body"):
+                continue
+            self.fns.setdefault((base_name(s), it["name"]), []).append(it)
+        for (f, s, it, t) in src.consts:
+            if t or f != AUTOMATA or it.get("k") != "const":
+                continue
+            self.consts.setdefault((base_name(s), it["name"]), []).append(it)
+
+    def fn(self, ty, name):
+        c = self.fns.get((ty, name), [])
+        return c[0] if len(c) == 1 else None
+
+    def const(self, ty, name):
+        c = self.consts.get((ty, name), [])
+        return c[0] if len(c) == 1 else None
+
+
+def _split_callee(p, self_ty):
+    """'Self::f' / 'NFA::f' / 'f' -> (type base name | None, 'f')"""
+    segs = [s for s in p.split("::") if s and not s.startswith("<")]
+    if len(segs) == 1:
+        return None, segs[0]
+    ty = segs[-2]
+    if ty == "Self":
+        ty = self_ty
+    return base_name(ty), segs[-1]
+
+
+def _closure_of(e):
+    e = _unref(e)
+    return e if isinstance(e, dict) and e.get("k") == "closure" else None
+
+
+def _is_empty_block(e):
+    if e is None:
+        return True
+    if e.get("k") == "block":
+        return not e["stmts"]
+    return e.get("k") == "tuple" and not e["elems"]
+
+
+_UNIT = ("unit",)
+
+
 class _RoleEval:
     """Abstract interpretation of one combinator body over the role domain
-       N<k> (fresh id NFAStateId(k)) · S/T (operand start/stop) · S0/T0 · Sn/Tn · Sp/Tp (previous operand)."""
+       N<k> (fresh id NFAStateId(k)) · S/T (operand start/stop) · S0/T0 · Sn/Tn · Sp/Tp (previous operand).
 
-    def __init__(self, name, item, impl_self):
+       Values: ("role", r) · ("int", a, b, c) = a*len(ends) + b*<loop index> + c · ("pair", first|last|cur|prev|each) one element of `ends` ·
+       ("opt", pair) · ("window",) a 2-window of `ends` · ("tuple", ..) · ("ends",) ("endsiter",) · ("states",) ("selfstates",) ("newmap",) ·
+       ("fresh", uid) a locally built NFAState · ("stateref", role) / ("optstate", role) from states.get_mut(&role) ·
+       ("epsilons"|"edges", holder) · ("nfa", start, stop, states) a result literal · ("self",) ("nfas",) ("pred",) ("symbol",) ("leafcall", name) · ("bool", b) a literal
+       flag (an `if` over it is folded; the ε-inserts of the branch not taken are still counted in extra["eps_inserts_static"]).
+       Calls to small local fns / inherent methods of src/automata.rs are evaluated in place (parameters bound to the abstract values of the
+       arguments); named constants are evaluated; anything else fails closed (WiringError)."""
+
+    def __init__(self, name, item, impl_self, local=None):
         self.name = name
         self.item = item
+        self.local = local or _LocalDefs()
         self.env = {}
         self.arity = None
         self.reserve = 0
@@ -1187,8 +1257,16 @@ class _RoleEval:
         self.on_empty = None
         self.fresh = {}           # uid -> {"eps": [(scope, role)], "bytes": [role], "placed": False}
         self.result = None
-        self.sites = []
+        self.sites = []           # one entry per *evaluation* of an ε-insert site (a helper called 3 times with one insert = 3)
         self.byte_loop_ok = None
+        self.scope = "once"
+        self.idx = None           # (mode, c): inside an index-style loop `ends[i + c]` is the current element
+        self.ends_indexed = False
+        self.static_extra = 0     # ε-insert evaluations inside branches folded away by a literal flag
+        self.self_ty = [base_name(impl_self) or "NFA"]
+        self.call_stack = []
+        self.local_consts = {}
+        self.local_fns = {}
         inputs = item["sig"]["inputs"]
         self.self_taking = bool(inputs) and inputs[0]["name"] == "self"
         for p in inputs:
@@ -1204,68 +1282,315 @@ class _RoleEval:
     def err(self, what):
         raise WiringError("%s: %s" % (self.name, what))
 
-    # -- expressions -> abstract values
+    # -- integers (linear in len(ends) and the loop index)
+    @staticmethod
+    def _int(c, a=0, b=0):
+        return ("int", a, b, c)
+
+    def const_int(self, e):
+        v = self.val(e)
+        if v[0] == "int" and v[1] == 0 and v[2] == 0:
+            return v[3]
+        return None
+
+    # -- expressions -> abstract values (effects of helper calls / statements-as-expressions are applied in place)
     def val(self, e):
         e = _unref(e)
         k = e["k"]
+        if k == "un" and e["op"] == "*":
+            return self.val(e["e"])
+        if k == "un" and e["op"] == "!":
+            b = self.val(e["e"])
+            if b[0] == "bool":
+                return ("bool", not b[1])
+            self.err("negation %s" % expr_text(e))
+        if k == "lit":
+            if e.get("t") == "int":
+                return self._int(int(e["v"]))
+            if e.get("t") == "bool":
+                return ("bool", bool(e["v"]))
+            self.err("literal %s" % expr_text(e))
         if k == "path":
             if e["p"] in self.env:
                 return self.env[e["p"]]
-            self.err("unknown name %s" % e["p"])
+            return self.const_val(e)
         if k == "field":
             b = self.val(e["e"])
+            nm = e["name"]
             if b == ("self",):
-                if e["name"] == "start":
+                if nm == "start":
                     return ("role", "S")
-                if e["name"] == "stop":
+                if nm == "stop":
                     return ("role", "T")
-                if e["name"] == "states":
+                if nm == "states":
                     return ("selfstates",)
-            if b[0] in ("fresh", "stateref") and e["name"] in ("epsilons", "edges"):
-                return (e["name"],) + (b,)
+            if b[0] in ("fresh", "stateref") and nm in ("epsilons", "edges"):
+                return (nm,) + (b,)
+            if b[0] == "pair" and nm in ("0", "1"):
+                return ("role", self.pair_roles(b[1])[int(nm)])
+            if b[0] == "tuple" and nm.isdigit() and int(nm) < len(b) - 1:
+                return b[1 + int(nm)]
             self.err("field %s" % expr_text(e))
         if k == "call" and _is_path(e["f"]):
-            p = e["f"]["p"]
-            if p == "NFAStateId" and len(e["args"]) == 1:
-                n = _int_lit(e["args"][0])
-                if n is None:
-                    self.err("NFAStateId of a non-literal: %s" % expr_text(e))
-                return ("role", "N%d" % n)
-            if p in ("NFAState::new",):
-                uid = len(self.fresh)
-                self.fresh[uid] = {"eps": [], "bytes": [], "placed": False}
-                return ("fresh", uid)
-            if p in ("BTreeMap::new", "Default::default", "BTreeMap::default"):
-                return ("newmap",)
-            if p in ("Self::merge_states", "NFA::merge_states"):
-                return self.merge_call(e)
-            if p in ("Self::empty", "Self::nothing", "NFA::empty", "NFA::nothing") and not e["args"]:
-                return ("leafcall", p.split("::")[1])
-            self.err("call %s" % expr_text(e))
+            return self.call_val(e)
+        if k == "mcall":
+            return self.mcall_val(e)
         if k == "index":
             b = self.val(e["e"])
-            if b != ("ends",):
-                self.err("index into %s" % expr_text(e["e"]))
-            return ("pair", self.index_kind(e["i"]))
+            if b == ("ends",):
+                kind = self.index_kind(e["i"])
+                if kind in ("first", "last"):
+                    self.ends_indexed = True
+                return ("pair", kind)
+            if b == ("window",):
+                n = self.const_int(e["i"])
+                if n == 0:
+                    return ("pair", "prev")
+                if n == 1:
+                    return ("pair", "cur")
+                self.err("window index %s" % expr_text(e["i"]))
+            self.err("index into %s" % expr_text(e["e"]))
         if k == "tuple":
+            if not e["elems"]:
+                return _UNIT
             return ("tuple",) + tuple(self.val(x) for x in e["elems"])
+        if k == "bin" and e["op"] in ("+", "-"):
+            l, r = self.val(e["l"]), self.val(e["r"])
+            if l[0] == "int" and r[0] == "int":
+                s = 1 if e["op"] == "+" else -1
+                return ("int", l[1] + s * r[1], l[2] + s * r[2], l[3] + s * r[3])
+            self.err("arithmetic %s" % expr_text(e))
+        if k == "struct":
+            return self.struct_val(e)
+        if k == "assign" and e["l"].get("k") == "field" and e["l"]["name"] == "edges":
+            # state.edges = (0..=MAX).filter(..).map(|s| (s, to)).collect();   on a state that has no byte edges yet
+            recv = self.val(e["l"])
+            if recv[0] == "edges" and recv[1][0] == "fresh" and not self.fresh[recv[1][1]]["bytes"]:
+                return self.extend_edges(e, recv, e["r"], True)
+            self.err("assignment %s" % expr_text(e))
+        if k == "block" and not e.get("label"):
+            return self.scoped_block(e["stmts"])
+        if k == "if":
+            return self.if_val(e)
+        if k == "match":
+            return self.match_val(e)
+        if k == "for":
+            if e.get("label"):
+                self.err("labelled loop")
+            self.loop(e["iter"], e["pat"], e["body"])
+            return _UNIT
+        if k == "macro" and e.get("short") in ("debug_assert", "debug_assert_eq", "debug_assert_ne"):
+            return _UNIT
+        if k == "return":
+            self.err("unexpected return")
         self.err("expression %s" % expr_text(e))
+
+    def const_val(self, e):
+        p = e["p"]
+        ty, nm = _split_callee(p, self.self_ty[-1])
+        node = None
+        if ty is None and nm in self.local_consts:
+            node, cty = self.local_consts[nm], self.self_ty[-1]
+        else:
+            c = self.local.const(ty, nm)
+            if c is not None:
+                node, cty = c["expr"], (ty or self.self_ty[-1])
+        if node is None:
+            self.err("unknown name %s" % p)
+        if len(self.call_stack) >= 6:
+            self.err("constant nesting at %s" % p)
+        saved, self.env = self.env, {}
+        self.self_ty.append(cty)
+        self.call_stack.append(("const", p))
+        try:
+            return self.val(node)
+        finally:
+            self.call_stack.pop()
+            self.self_ty.pop()
+            self.env = saved
+
+    def struct_val(self, e):
+        ty = self.self_ty[-1] if e["path"] == "Self" else base_name(e["path"])
+        f = {x["name"]: x["e"] for x in e["fields"]}
+        if ty == "NFA":
+            if set(f) != {"start", "stop", "states"} or e.get("rest"):
+                self.err("result literal fields %s" % sorted(f))
+            st = self.val(f["states"])
+            if st not in (("states",), ("newmap",), ("selfstates",)):
+                self.err("result states %s" % expr_text(f["states"]))
+            return ("nfa", self.role(f["start"]), self.role(f["stop"]), st)
+        if ty == "NFAState" and set(f) == {"edges", "epsilons", "tag"} and not e.get("rest"):
+            def empty(x):
+                return x["k"] == "call" and _is_path(x["f"]) and not x["args"] and \
+                    x["f"]["p"] in ("Default::default", "BTreeMap::new", "BTreeSet::new", "BTreeMap::default", "BTreeSet::default")
+            if empty(f["epsilons"]) and _is_path(f["tag"], "None"):
+                if empty(f["edges"]):
+                    return self.new_fresh()
+                v = self.new_fresh()
+                self.extend_edges(e, ("edges", v), f["edges"], True)
+                return v
+        self.err("struct literal %s" % expr_text(e))
+
+    def new_fresh(self):
+        uid = len(self.fresh)
+        self.fresh[uid] = {"eps": [], "bytes": [], "placed": False}
+        return ("fresh", uid)
+
+    def call_val(self, e):
+        p = e["f"]["p"]
+        args = e["args"]
+        ty, last = _split_callee(p, self.self_ty[-1])
+        if (p == "NFAStateId" or (p == "Self" and self.self_ty[-1] == "NFAStateId")) and len(args) == 1:
+            n = self.const_int(args[0])
+            if n is None or n < 0:
+                self.err("NFAStateId of a non-literal: %s" % expr_text(e))
+            return ("role", "N%d" % n)
+        if ty == "NFAState" and last == "new" and not args:
+            return self.new_fresh()
+        if p in ("BTreeMap::new", "Default::default", "BTreeMap::default") and not args:
+            return ("newmap",)
+        if ty == "NFA" and last == "merge_states":
+            return self.merge_call(e)
+        if ty == "NFA" and last in ("empty", "nothing") and not args:
+            return ("leafcall", last)
+        if p == "BTreeMap::from" and len(args) == 1 and args[0]["k"] == "array":
+            m = ("newmap",)
+            for el in args[0]["elems"]:
+                if el["k"] != "tuple" or len(el["elems"]) != 2:
+                    self.err("BTreeMap::from element %s" % expr_text(el))
+                self.insert_state(m, el["elems"][0], el["elems"][1])
+            return m
+        if p in ("drop", "std::mem::drop", "mem::drop") and len(args) == 1:
+            self.val(args[0])
+            return _UNIT
+        item = self.local_fns.get(last) if ty is None and last in self.local_fns else self.local.fn(ty, last)
+        if item is not None:
+            return self.call_helper(item, ty, None, args, expr_text(e))
+        self.err("call %s" % expr_text(e))
+
+    def value_type(self, v):
+        if v[0] == "role":
+            return "NFAStateId"
+        if v == ("self",):
+            return "NFA"
+        if v[0] in ("fresh", "stateref"):
+            return "NFAState"
+        return None
+
+    def call_helper(self, item, ty, recv, arg_nodes, what):
+        """evaluate the body of a local fn in place: parameters := abstract values of the arguments"""
+        name = item["name"]
+        if ty == "NFA" and (name in COMBINATORS or name == "merge_states"):
+            self.err("call of NFA::%s inside a combinator body: %s" % (name, what))
+        key = (ty, name)
+        if key in self.call_stack:
+            self.err("recursive helper %s" % what)
+        if len(self.call_stack) >= 6:
+            self.err("helper nesting too deep at %s" % what)
+        inputs = item["sig"]["inputs"]
+        has_self = bool(inputs) and inputs[0]["name"] == "self"
+        params = inputs[1:] if has_self else inputs
+        arg_nodes = list(arg_nodes)
+        if has_self and recv is None:
+            if len(arg_nodes) != len(params) + 1:
+                self.err("arity of %s" % what)
+            recv = self.val(arg_nodes.pop(0))
+        elif recv is not None and not has_self:
+            self.err("%s is not a method" % what)
+        if len(params) != len(arg_nodes):
+            self.err("arity of %s" % what)
+        vals = [self.val(a) for a in arg_nodes]
+        saved_env, saved_consts, saved_fns = self.env, self.local_consts, self.local_fns
+        self.env, self.local_consts, self.local_fns = {}, {}, {}
+        if has_self:
+            self.env["self"] = recv
+        self.call_stack.append(key)
+        self.self_ty.append(ty or self.self_ty[-1])
+        try:
+            for p, v in zip(params, vals):
+                self.bind(p["pat"], v)
+            return self.block(item["body"]["stmts"])
+        finally:
+            self.self_ty.pop()
+            self.call_stack.pop()
+            self.env, self.local_consts, self.local_fns = saved_env, saved_consts, saved_fns
+
+    def mcall_val(self, e):
+        m, args = e["m"], e["args"]
+        if m == "for_each" and len(args) == 1 and _closure_of(args[0]) is not None:
+            c = _closure_of(args[0])
+            if len(c["params"]) != 1:
+                self.err("for_each closure %s" % expr_text(e))
+            self.loop(e["recv"], c["params"][0], c["body"])
+            return _UNIT
+        if m == "insert":
+            return self.insert_val(e)
+        recv = self.val(e["recv"])
+        if m == "extend" and len(args) == 1 and recv[0] == "edges":
+            return self.extend_edges(e, recv)
+        if m == "map" and len(args) == 1 and _closure_of(args[0]) is not None and recv[0] == "optstate":
+            c = _closure_of(args[0])
+            if len(c["params"]) != 1:
+                self.err("closure %s" % expr_text(e))
+            self.with_state(c["params"][0], recv[1], c["body"])
+            return _UNIT
+        if recv == ("ends",):
+            if m == "len" and not args:
+                return self._int(0, a=1)
+            if m in ("first", "last") and not args:
+                return ("opt", ("pair", m))
+            if m == "get" and len(args) == 1:
+                return ("opt", ("pair", self.index_kind(args[0])))
+            if m in ("iter", "into_iter") and not args:
+                return ("endsiter",)
+            if m == "as_slice" and not args:
+                return recv
+        if recv == ("endsiter",):
+            if m in ("copied", "cloned") and not args:
+                return recv
+            if m == "next" and not args and _unref(e["recv"])["k"] == "mcall":
+                return ("opt", ("pair", "first"))
+        if recv[0] == "opt":
+            if m in ("copied", "cloned") and not args:
+                return recv
+            if m in ("unwrap", "expect"):
+                self.ends_indexed = True        # same failure mode as `ends[..]` on an empty list
+                return recv[1]
+        if recv[0] in ("pair", "role", "tuple", "int") and m in ("clone", "to_owned") and not args:
+            return recv
+        if recv in (("states",), ("selfstates",)) and m == "get_mut" and len(args) == 1:
+            return ("optstate", self.role(args[0]))
+        ty = self.value_type(recv)
+        if ty is not None:
+            item = self.local.fn(ty, m)
+            if item is not None and item["sig"]["inputs"] and item["sig"]["inputs"][0]["name"] == "self":
+                return self.call_helper(item, ty, recv, args, expr_text(e))
+        self.err("method call %s" % expr_text(e))
 
     def merge_call(self, e):
         if self.merged:
             self.err("merge_states called twice")
         if len(e["args"]) != 2:
             self.err("merge_states arity")
+        if self.scope != "once":
+            self.err("merge_states called inside a loop")
         a, kk = e["args"]
-        n = _int_lit(kk)
-        if n is None:
+        n = self.const_int(kk)
+        if n is None or n < 0:
             self.err("merge_states offset is not a literal")
         a = _unref(a)
+        while a["k"] == "mcall" and a["m"] == "into_iter" and not a["args"]:
+            a = _unref(a["recv"])
+
+        def is_self(x):
+            return _is_path(_unref(x)) and self.env.get(_unref(x)["p"]) == ("self",)
         if _is_path(a) and self.env.get(a["p"]) == ("nfas",):
             self.arity = "nary"
-        elif a["k"] == "call" and _is_path(a["f"]) and a["f"]["p"].split("::")[-1] == "once" and len(a["args"]) == 1 and _is_path(a["args"][0], "self"):
+        elif a["k"] == "call" and _is_path(a["f"]) and a["f"]["p"].split("::")[-1] in ("once", "Some") and len(a["args"]) == 1 and is_self(a["args"][0]):
             self.arity = "unary"
-        elif a["k"] == "array" and len(a["elems"]) == 1 and _is_path(a["elems"][0], "self"):
+        elif a["k"] == "array" and len(a["elems"]) == 1 and is_self(a["elems"][0]):
+            self.arity = "unary"
+        elif a["k"] == "macro" and a.get("short") == "vec" and isinstance(a.get("args"), list) and len(a["args"]) == 1 and is_self(a["args"][0]):
             self.arity = "unary"
         else:
             self.err("merge_states over %s" % expr_text(a))
@@ -1274,19 +1599,28 @@ class _RoleEval:
         return ("tuple", ("states",), ("ends",))
 
     def index_kind(self, i):
-        n = _int_lit(i)
-        if n == 0:
-            return "first"
-        if n is not None:
-            self.err("ends[%d]" % n)
-        if _is_path(i) and self.env.get(i["p"]) == ("index",):
-            return "cur"
-        if i["k"] == "bin" and i["op"] == "-" and _int_lit(i["r"]) == 1:
-            l = i["l"]
-            if _is_path(l) and self.env.get(l["p"]) == ("index",):
-                return "prev"
-            if l["k"] == "mcall" and l["m"] == "len" and self.val(l["recv"]) == ("ends",):
-                return "last"
+        i = _unref(i)
+        if i["k"] == "range":
+            self.err("ends[%s]" % expr_text(i))
+        v = self.val(i)
+        if v[0] != "int":
+            self.err("ends[%s]" % expr_text(i))
+        _, a, b, c = v
+        if a == 0 and b == 0:
+            if c == 0:
+                return "first"
+            self.err("ends[%d]" % c)
+        if a == 1 and b == 0 and c == -1:
+            return "last"
+        if a == 0 and b == 1 and self.idx is not None:
+            mode, cur = self.idx
+            if mode == "adjacent":
+                if c == cur:
+                    return "cur"
+                if c == cur - 1:
+                    return "prev"
+            elif c == 0:
+                return "each"
         self.err("ends[%s]" % expr_text(i))
 
     def pair_roles(self, kind):
@@ -1301,6 +1635,8 @@ class _RoleEval:
         if k == "wild":
             return
         if k == "ident":
+            if pat.get("sub"):
+                self.err("pattern %s" % pat_text(pat))
             self.env[pat["name"]] = v
             return
         if k == "ref":
@@ -1314,6 +1650,18 @@ class _RoleEval:
             for p, x in zip(pat["elems"], v[1:]):
                 self.bind(p, x)
             return
+        if k == "slice" and v == ("window",) and len(pat["elems"]) == 2:
+            self.bind(pat["elems"][0], ("pair", "prev"))
+            self.bind(pat["elems"][1], ("pair", "cur"))
+            return
+        if k == "struct" and v == ("self",) and not pat.get("rest") and \
+                (self.self_ty[-1] if pat["path"] == "Self" else base_name(pat["path"])) == "NFA":
+            f = {x["name"]: x["pat"] for x in pat["fields"]}
+            if set(f) == {"start", "stop", "states"}:
+                self.bind(f["start"], ("role", "S"))
+                self.bind(f["stop"], ("role", "T"))
+                self.bind(f["states"], ("selfstates",))
+                return
         self.err("pattern %s" % pat_text(pat))
 
     def role(self, e):
@@ -1325,7 +1673,8 @@ class _RoleEval:
     # -- statements
     def run(self):
         body = self.item["body"]["stmts"]
-        res = self.stmts(body, "once", top=True)
+        res = self.block(body, top=True)
+        self.finish(res)
         if self.result is None:
             self.err("no result expression")
         for uid, f in self.fresh.items():
@@ -1333,23 +1682,369 @@ class _RoleEval:
                 self.err("a locally built state with edges is never inserted into the state map")
         return res
 
-    def stmts(self, body, scope, top=False):
+    def block(self, body, top=False):
+        """statements of one block, in order; value of the tail expression (unit if there is none)"""
+        res = _UNIT
         for i, st in enumerate(body):
-            last = top and i == len(body) - 1
+            last = i == len(body) - 1
+            res = _UNIT
             if st["k"] == "let":
-                if st.get("init") is None:
-                    self.err("let without initialiser")
-                self.bind(st["pat"], self.val(st["init"]))
+                self.let(st)
+            elif st["k"] == "item":
+                it = st["item"]
+                if it.get("k") == "const":
+                    self.local_consts[it["name"]] = it["expr"]
+                elif it.get("k") == "fn":
+                    self.local_fns[it["name"]] = it
+                elif it.get("k") != "use":
+                    self.err("nested item %s" % it.get("k"))
             elif st["k"] == "expr":
-                if last and not st["semi"]:
-                    self.finish(st["e"])
+                e = st["e"]
+                if last and top and e["k"] == "return" and e.get("e") is not None:
+                    res = self.val(e["e"])
                 else:
-                    self.stmt_expr(st["e"], scope)
+                    v = self.val(e)
+                    if last and not st["semi"]:
+                        res = v
             else:
                 self.err("statement kind %s" % st["k"])
+        return res
 
-    def finish(self, e):
-        if _is_path(e, "self"):
+    def scoped_block(self, body):
+        saved = dict(self.env)
+        saved_c, saved_f = dict(self.local_consts), dict(self.local_fns)
+        try:
+            return self.block(body)
+        finally:
+            self.env, self.local_consts, self.local_fns = saved, saved_c, saved_f
+
+    def body_val(self, e):
+        """a loop / closure / arm body: a block or a single expression"""
+        if e["k"] == "block":
+            return self.scoped_block(e["stmts"])
+        return self.val(e)
+
+    def let(self, st):
+        if st.get("init") is None:
+            self.err("let without initialiser")
+        v = self.val(st["init"])
+        if st.get("else") is not None:
+            # let Some(p) = ends.first() else { return Self::empty() };
+            # also  let (Some(&(start, _)), Some(&(_, stop))) = (ends.first(), ends.last()) else { .. }:  all are Some iff `ends` is not empty
+            pat = st["pat"]
+            pairs = self.some_patterns(pat, v)
+            if not pairs:
+                self.err("let-else %s" % pat_text(pat))
+            self.empty_return(st["else"])
+            for p, x in pairs:
+                self.bind(p, x)
+            return
+        self.bind(st["pat"], v)
+
+    def some_patterns(self, pat, v):
+        """[(sub-pattern, element of ends)] if `pat` matches `v` exactly when `ends` is not empty (Some(..) over first()/last(), tuples of these)"""
+        while pat["k"] == "ref":
+            pat = pat["pat"]
+        if pat["k"] == "tstruct" and pat["path"] == "Some" and len(pat["elems"]) == 1 and v[0] == "opt" and v[1][0] == "pair" and v[1][1] in ("first", "last"):
+            return [(pat["elems"][0], v[1])]
+        if pat["k"] == "tuple" and v[0] == "tuple" and len(pat["elems"]) == len(v) - 1 and pat["elems"]:
+            out = []
+            for p, x in zip(pat["elems"], v[1:]):
+                r = self.some_patterns(p, x)
+                if not r:
+                    return None
+                out += r
+            return out
+        return None
+
+    def empty_return(self, blk):
+        """`{ return Self::<leaf>() }` taken when the operand list is empty"""
+        th = blk["stmts"] if blk.get("k") == "block" else None
+        if th is None or len(th) != 1 or th[0]["k"] != "expr" or th[0]["e"]["k"] != "return" or th[0]["e"].get("e") is None:
+            self.err("shape of the `ends.is_empty()` early return")
+        v = self.val(th[0]["e"]["e"])
+        self.set_on_empty(v, expr_text(th[0]["e"]["e"]))
+
+    def set_on_empty(self, v, what):
+        if v[0] != "leafcall" or self.scope != "once" or self.call_stack or self.on_empty is not None:
+            self.err("early return value %s" % what)
+        if self.ends_indexed:
+            self.err("`ends` is indexed before the empty operand list is handled")
+        if self.arity != "nary":
+            self.err("empty-operand-list test in a combinator that is not n-ary")
+        self.on_empty = v[1]
+
+    def is_empty_test(self, c):
+        """condition equivalent to `ends.is_empty()`"""
+        if c["k"] == "mcall" and c["m"] == "is_empty" and not c["args"]:
+            return self.val(c["recv"]) == ("ends",)
+        if c["k"] == "bin" and c["op"] in ("==", "<", "<=", ">", ">="):
+            try:
+                l, r = self.val(c["l"]), self.val(c["r"])
+            except WiringError:
+                return False
+            if l[0] != "int" or r[0] != "int" or l[2] or r[2] or (l[1] == 0 and r[1] == 0):
+                return False
+            op = {"==": lambda x, y: x == y, "<": lambda x, y: x < y, "<=": lambda x, y: x <= y, ">": lambda x, y: x > y, ">=": lambda x, y: x >= y}[c["op"]]
+            truth = [op(l[1] * n + l[3], r[1] * n + r[3]) for n in range(0, 6)]
+            return truth == [True] + [False] * 5
+        return False
+
+    def flag_of(self, c):
+        """value of a condition that is a literal flag (a bool literal / a parameter bound to one / its negation), else None"""
+        x = c
+        while x.get("k") == "un" and x["op"] == "!":
+            x = x["e"]
+        if x.get("k") == "lit" and x.get("t") == "bool" or (_is_path(x) and self.env.get(x["p"], ("?",))[0] == "bool"):
+            return self.val(c)[1]
+        return None
+
+    def dry_sites(self, node):
+        """number of ε-insert evaluations of a branch that is folded away (evaluated on a copy of the state, effects discarded)"""
+        names = ("env", "arity", "reserve", "merged", "new_states", "eps", "byte_edges", "on_empty", "fresh", "result", "sites", "byte_loop_ok",
+                 "scope", "idx", "ends_indexed", "local_consts", "local_fns", "static_extra")
+        snap = {}
+        for n in names:
+            v = getattr(self, n)
+            snap[n] = copy.deepcopy(v) if n == "fresh" else (v.copy() if isinstance(v, (dict, set)) else (list(v) if isinstance(v, list) else v))
+        n0 = len(self.sites) + self.static_extra
+        try:
+            self.body_val(node)
+            return len(self.sites) + self.static_extra - n0
+        finally:
+            for n in names:
+                setattr(self, n, snap[n])
+
+    def if_val(self, e):
+        c = e["cond"]
+        flag = self.flag_of(c)
+        if flag is not None:
+            taken, other = (e["then"], e.get("else")) if flag else (e.get("else"), e["then"])
+            if other is not None:
+                self.static_extra += self.dry_sites(other)
+            return self.body_val(taken) if taken is not None else _UNIT
+        if self.is_empty_test(c):
+            if e.get("else") is None:
+                self.empty_return(e["then"])
+                return _UNIT
+            # if ends.is_empty() { Self::empty() } else { <rest> }   (as the tail of the body)
+            th = e["then"]["stmts"]
+            if len(th) != 1 or th[0]["k"] != "expr":
+                self.err("shape of the `ends.is_empty()` branch")
+            x = th[0]["e"]
+            if x["k"] == "return" and x.get("e") is not None:
+                x = x["e"]
+            elif th[0]["semi"]:
+                self.err("shape of the `ends.is_empty()` branch")
+            self.set_on_empty(self.val(x), expr_text(x))
+            return self.body_val(e["else"])
+        if c["k"] == "letcond":
+            pat = c["pat"]
+            g = self.val(c["e"])
+            if pat["k"] == "tstruct" and pat["path"] == "Some" and len(pat["elems"]) == 1:
+                if g[0] == "optstate":
+                    if not _is_empty_block(e.get("else")):
+                        self.err("else branch of `if let Some(..) = states.get_mut(..)`")
+                    self.with_state(pat["elems"][0], g[1], e["then"])
+                    return _UNIT
+                if g[0] == "opt" and not e.get("else") and (self.arity == "unary" or self.on_empty is not None):
+                    # the list is known to be non-empty here: the branch is always taken
+                    saved = dict(self.env)
+                    self.bind(pat["elems"][0], g[1])
+                    self.block(e["then"]["stmts"])
+                    self.env = saved
+                    return _UNIT
+            while pat["k"] == "ref":
+                pat = pat["pat"]
+            if pat["k"] == "slice" and g == ("window",) and not e.get("else"):
+                saved = dict(self.env)
+                self.bind(pat, g)
+                self.block(e["then"]["stmts"])
+                self.env = saved
+                return _UNIT
+        if c["k"] == "call" and _is_path(c["f"]) and self.env.get(c["f"]["p"]) == ("pred",) and self.scope == "bytes":
+            if len(c["args"]) != 1 or self.val(c["args"][0]) != ("symbol",) or e.get("else"):
+                self.err("predicate guard %s" % expr_text(c))
+            saved, self.scope = self.scope, "bytes-guarded"
+            try:
+                self.scoped_block(e["then"]["stmts"])
+            finally:
+                self.scope = saved
+            return _UNIT
+        self.err("if %s" % expr_text(c))
+
+    def with_state(self, pat, role, body):
+        """body evaluated with `pat` bound to the state stored under `role` (taken iff that state exists)"""
+        saved = dict(self.env)
+        self.bind(pat, ("stateref", role))
+        self.body_val(body)
+        self.env = saved
+
+    def match_val(self, e):
+        sv = self.val(e["e"])
+        if sv[0] == "bool":
+            # match <literal flag> { true => .., false => .. }: folded like `if`
+            taken = None
+            for arm in e["arms"]:
+                p = arm["pat"]
+                if arm.get("guard") is not None:
+                    self.err("guarded arm in match %s" % expr_text(e["e"]))
+                hit = (p["k"] == "lit" and p["e"].get("t") == "bool" and bool(p["e"]["v"]) == sv[1]) or p["k"] == "wild"
+                if not (p["k"] == "wild" or (p["k"] == "lit" and p["e"].get("t") == "bool")):
+                    self.err("arm %s of match %s" % (pat_text(p), expr_text(e["e"])))
+                if hit and taken is None:
+                    taken = arm
+                else:
+                    self.static_extra += self.dry_sites(arm["body"])
+            if taken is None:
+                self.err("match %s" % expr_text(e["e"]))
+            return self.body_val(taken["body"])
+        if sv[0] != "optstate":
+            self.err("match %s" % expr_text(e["e"]))
+        some = None
+        for arm in e["arms"]:
+            p = arm["pat"]
+            if arm.get("guard") is not None:
+                self.err("guarded arm in match %s" % expr_text(e["e"]))
+            if p["k"] == "tstruct" and p["path"] == "Some" and len(p["elems"]) == 1 and some is None:
+                some = arm
+            elif (p["k"] == "wild" or (p["k"] in ("path", "ident") and (p.get("p") or p.get("name")) == "None")) and _is_empty_block(arm["body"]):
+                pass
+            else:
+                self.err("arm %s of match %s" % (pat_text(p), expr_text(e["e"])))
+        if some is None:
+            self.err("match %s without a Some arm" % expr_text(e["e"]))
+        self.with_state(some["pat"]["elems"][0], sv[1], some["body"])
+        return _UNIT
+
+    # -- loops over the operands' ends / over the alphabet
+    def is_byte_range(self, it):
+        lo, hi = it.get("lo"), it.get("hi")
+        if lo is None or hi is None or not it["incl"]:
+            return False
+        lo_ok = _int_lit(lo) == 0 or (_is_path(lo) and lo["p"] in ("Symbol::MIN", "u8::MIN"))
+        hi_ok = (_is_path(hi) and hi["p"] in ("Symbol::MAX", "u8::MAX")) or _int_lit(hi) == 255
+        return lo_ok and hi_ok
+
+    def seq(self, it):
+        """symbolic description of an iterated sequence:
+           ("E", off, trunc) elements ends[off..] (trunc: without the last) · ("EN", off, first_i) enumerated · ("ZIP", a, b) · ("WIN",)
+           · ("RANGE", lo, hi_excl) as ints · ("BYTES", guarded)"""
+        it = _unref(it)
+        k = it["k"]
+        if k == "mcall":
+            m, args = it["m"], it["args"]
+            if m in ("iter", "into_iter", "copied", "cloned", "as_slice") and not args:
+                return self.seq(it["recv"])
+            if m == "skip" and len(args) == 1 and self.const_int(args[0]) == 1:
+                b = self.seq(it["recv"])
+                if b == ("E", 0, False):
+                    return ("E", 1, False)
+                if b == ("EN", 0, 0):
+                    return ("EN", 1, 1)
+                self.err("loop over %s" % expr_text(it))
+            if m == "enumerate" and not args:
+                b = self.seq(it["recv"])
+                if b[0] == "E" and not b[2]:
+                    return ("EN", b[1], 0)
+                self.err("loop over %s" % expr_text(it))
+            if m == "zip" and len(args) == 1:
+                return ("ZIP", self.seq(it["recv"]), self.seq(args[0]))
+            if m == "windows" and len(args) == 1 and self.const_int(args[0]) == 2 and self.val(it["recv"]) == ("ends",):
+                return ("WIN",)
+            if m == "array_windows" and not args and self.val(it["recv"]) == ("ends",):
+                return ("WIN",)
+            if m == "filter" and len(args) == 1 and _closure_of(args[0]) is not None and self.seq(it["recv"]) == ("BYTES", False):
+                c = _closure_of(args[0])
+                p = c["params"][0] if len(c["params"]) == 1 else None
+                while p is not None and p["k"] == "ref":
+                    p = p["pat"]
+                b = c["body"]
+                if p is not None and p["k"] == "ident" and b["k"] == "call" and _is_path(b["f"]) and self.env.get(b["f"]["p"]) == ("pred",) and \
+                        len(b["args"]) == 1:
+                    a = _unref(b["args"][0])
+                    while a["k"] == "un" and a["op"] == "*":
+                        a = a["e"]
+                    if _is_path(a, p["name"]):
+                        return ("BYTES", True)
+                self.err("filter %s" % expr_text(it))
+            self.err("loop over %s" % expr_text(it))
+        if k == "index" and _unref(it["i"])["k"] == "range" and self.val(it["e"]) == ("ends",):
+            r = _unref(it["i"])
+            lo = 0 if r["lo"] is None else self.const_int(r["lo"])
+            if lo in (0, 1):
+                if r["hi"] is None:
+                    return ("E", lo, False)
+                h = self.val(r["hi"])
+                if lo == 0 and not r["incl"] and h == ("int", 1, 0, -1) and self.on_empty is not None:
+                    return ("E", 0, True)
+            self.err("loop over %s" % expr_text(it))
+        if k == "range":
+            if self.is_byte_range(it) and ("pred",) in self.env.values():
+                return ("BYTES", False)
+            if it.get("lo") is None or it.get("hi") is None:
+                self.err("loop range %s" % expr_text(it))
+            lo, hi = self.val(it["lo"]), self.val(it["hi"])
+            if lo[0] != "int" or hi[0] != "int" or lo[1:3] != (0, 0) or hi[1:3] != (1, 0):
+                self.err("loop range %s" % expr_text(it))
+            if hi[3] < 0 and self.on_empty is None:
+                self.err("`ends.len() - %d` before the empty operand list is handled" % -hi[3])
+            return ("RANGE", lo[3], hi[3] + (1 if it["incl"] else 0))
+        if self.val(it) == ("ends",):
+            return ("E", 0, False)
+        self.err("loop over %s" % expr_text(it))
+
+    def loop(self, it, pat, body):
+        if self.scope != "once":
+            self.err("nested loop")
+        d = self.seq(it)
+        idx = None
+        if d[0] == "BYTES":
+            self.byte_loop_ok = True
+            scope, v = ("bytes-guarded" if d[1] else "bytes"), ("symbol",)
+        elif d == ("E", 0, False):
+            scope, v = "each", ("pair", "each")
+        elif d[0] == "EN" and d[1] == 0:
+            scope, v, idx = "each", ("tuple", ("int", 0, 1, 0), ("pair", "each")), ("each", 0)
+        elif d[0] == "EN":
+            scope, v, idx = "adjacent", ("tuple", ("int", 0, 1, 0), ("pair", "cur")), ("adjacent", 1 - d[2])
+        elif d[0] == "ZIP":
+            a, b = d[1], d[2]
+            if a[0] != "E" or b[0] != "E":
+                self.err("loop over %s" % expr_text(it))
+            if a[1] == 0 and b == ("E", 1, False):
+                scope, v = "adjacent", ("tuple", ("pair", "prev"), ("pair", "cur"))
+            elif a == ("E", 1, False) and b[1] == 0:
+                scope, v = "adjacent", ("tuple", ("pair", "cur"), ("pair", "prev"))
+            else:
+                self.err("loop over %s" % expr_text(it))
+        elif d == ("WIN",):
+            scope, v = "adjacent", ("window",)
+        elif d[0] == "RANGE":
+            lo, hi = d[1], d[2]
+            k = -hi
+            if lo < 0 or k < 0:
+                self.err("loop range %s" % expr_text(it))
+            if lo + k == 1:
+                scope, v, idx = "adjacent", ("int", 0, 1, 0), ("adjacent", k)
+            elif lo + k == 0:
+                scope, v, idx = "each", ("int", 0, 1, 0), ("each", 0)
+            else:
+                self.err("loop over adjacent operands must start at 1, found %s" % expr_text(it))
+        else:
+            self.err("loop over %s" % expr_text(it))
+        if scope in ("each", "adjacent") and self.arity != "nary":
+            self.err("%s loop in a unary combinator" % ("adjacent" if scope == "adjacent" else "loop over ends /"))
+        saved_env, saved_scope, saved_idx = dict(self.env), self.scope, self.idx
+        self.scope, self.idx = scope, idx
+        try:
+            self.bind(pat, v)
+            self.body_val(body)
+        finally:
+            self.env, self.scope, self.idx = saved_env, saved_scope, saved_idx
+
+    def finish(self, v):
+        if v == ("self",):
             if not self.self_taking:
                 self.err("returns self in a constructor")
             if self.merged:
@@ -1357,126 +2052,101 @@ class _RoleEval:
             self.arity = "unary"
             self.result = ("S", "T")
             return
-        if e["k"] == "struct" and e["path"] in ("Self", "NFA"):
-            f = {x["name"]: x["e"] for x in e["fields"]}
-            if set(f) != {"start", "stop", "states"} or e.get("rest"):
-                self.err("result literal fields %s" % sorted(f))
-            st = self.val(f["states"])
-            if st not in (("states",), ("newmap",), ("selfstates",)):
-                self.err("result states %s" % expr_text(f["states"]))
-            self.result = (self.role(f["start"]), self.role(f["stop"]))
+        if v[0] == "nfa":
+            _, start, stop, st = v
+            if self.merged and st != ("states",):
+                self.err("result states are not the merged states")
+            if st == ("selfstates",):
+                if not self.self_taking or self.merged:
+                    self.err("result states")
+                self.arity = "unary"
+            self.result = (start, stop)
             return
-        self.err("result expression %s" % expr_text(e))
+        self.err("result expression")
 
-    def stmt_expr(self, e, scope):
-        k = e["k"]
-        if k == "if":
-            c = e["cond"]
-            if c["k"] == "mcall" and c["m"] == "is_empty" and self.val(c["recv"]) == ("ends",):
-                th = e["then"]["stmts"]
-                if e.get("else") or len(th) != 1 or th[0]["k"] != "expr" or th[0]["e"]["k"] != "return":
-                    self.err("shape of the `ends.is_empty()` early return")
-                v = self.val(th[0]["e"]["e"])
-                if v[0] != "leafcall" or scope != "once":
-                    self.err("early return value %s" % expr_text(th[0]["e"]["e"]))
-                self.on_empty = v[1]
-                return
-            if c["k"] == "letcond" and c["pat"]["k"] == "tstruct" and c["pat"]["path"] == "Some" and len(c["pat"]["elems"]) == 1:
-                g = c["e"]
-                if g["k"] == "mcall" and g["m"] == "get_mut" and len(g["args"]) == 1 and self.val(g["recv"]) in (("states",), ("selfstates",)):
-                    if e.get("else"):
-                        self.err("else branch of `if let Some(..) = states.get_mut(..)`")
-                    r = self.role(g["args"][0])
-                    saved = dict(self.env)
-                    self.bind(c["pat"]["elems"][0], ("stateref", r))
-                    self.stmts(e["then"]["stmts"], scope)
-                    self.env = saved
-                    return
-            if c["k"] == "call" and _is_path(c["f"]) and self.env.get(c["f"]["p"]) == ("pred",) and scope == "bytes":
-                if len(c["args"]) != 1 or self.val(c["args"][0]) != ("symbol",) or e.get("else"):
-                    self.err("predicate guard %s" % expr_text(c))
-                self.stmts(e["then"]["stmts"], "bytes-guarded")
-                return
-            self.err("if %s" % expr_text(c))
-        if k == "for":
-            if scope != "once":
-                self.err("nested loop")
-            it = _unref(e["iter"])
-            while it["k"] == "mcall" and it["m"] in ("iter", "into_iter", "copied", "cloned") and not it["args"]:
-                it = _unref(it["recv"])
-            saved = dict(self.env)
-            if it["k"] == "range":
-                hi = it["hi"]
-                if hi is not None and hi["k"] == "mcall" and hi["m"] == "len" and self.val(hi["recv"]) == ("ends",) and not it["incl"]:
-                    if _int_lit(it["lo"]) != 1:
-                        self.err("loop over adjacent operands must start at 1, found %s" % expr_text(it["lo"]))
-                    if self.arity != "nary":
-                        self.err("adjacent loop in a unary combinator")
-                    self.bind(e["pat"], ("index",))
-                    self.stmts(e["body"]["stmts"], "adjacent")
-                elif ("pred",) in self.env.values() and _int_lit(it["lo"]) == 0 and it["incl"] and hi is not None and \
-                        ((_is_path(hi) and hi["p"] in ("Symbol::MAX", "u8::MAX")) or _int_lit(hi) == 255):
-                    self.bind(e["pat"], ("symbol",))
-                    self.byte_loop_ok = True
-                    self.stmts(e["body"]["stmts"], "bytes")
-                else:
-                    self.err("loop range %s" % expr_text(it))
-            elif _is_path(it) and self.env.get(it["p"]) == ("ends",):
-                if self.arity != "nary":
-                    self.err("loop over ends in a unary combinator")
-                self.bind(e["pat"], ("pair", "each"))
-                self.stmts(e["body"]["stmts"], "each")
-            else:
-                self.err("loop over %s" % expr_text(it))
+    def insert_state(self, recv, key, value):
+        if self.scope != "once":
+            self.err("state inserted inside a loop")
+        r = self.role(key)
+        v = self.val(value)
+        if v[0] != "fresh":
+            self.err("inserted state %s" % expr_text(value))
+        if not r.startswith("N"):
+            self.err("state inserted under an operand's id %s" % r)
+        if r in self.new_states:
+            self.err("state %s inserted twice" % r)
+        f = self.fresh[v[1]]
+        if f["placed"]:
+            self.err("local state inserted twice")
+        f["placed"] = True
+        self.new_states.add(r)
+        for (sc, to) in f["eps"]:
+            self.eps.add((sc, r, to))
+        for to in f["bytes"]:
+            self.byte_edges.add((r, to))
+
+    def byte_pairs(self, a, collected=None):
+        """target role of  (0..=MAX).filter(|s| pred(*s)).map(|s| (s, to)) [.collect()]  (every byte of the predicate's class -> `to`), else None"""
+        a = _unref(a)
+        if a["k"] == "mcall" and a["m"] == "collect" and not a["args"] and collected is not False:
+            return self.byte_pairs(a["recv"], False)
+        if collected is True:
+            return None
+        c = _closure_of(a["args"][0]) if a["k"] == "mcall" and a["m"] == "map" and len(a["args"]) == 1 else None
+        if c is None or len(c["params"]) != 1:
+            return None
+        try:
+            if self.seq(a["recv"]) != ("BYTES", True):
+                return None
+        except WiringError:
+            return None
+        saved = dict(self.env)
+        try:
+            self.bind(c["params"][0], ("symbol",))
+            v = self.body_val(c["body"])
+        finally:
             self.env = saved
-            return
-        if k == "mcall" and e["m"] == "insert":
-            recv = self.val(e["recv"])
-            if recv[0] == "epsilons" and len(e["args"]) == 1:
-                holder = recv[1]
-                to = self.role(e["args"][0])
-                if scope not in ("once", "each", "adjacent"):
-                    self.err("ε-edge inserted in scope %s" % scope)
-                self.sites.append(e.get("line", 0))
-                if holder[0] == "stateref":
-                    self.eps.add((scope, holder[1], to))
-                else:
-                    f = self.fresh[holder[1]]
-                    if f["placed"]:
-                        self.err("edge added to a state after it was inserted")
-                    f["eps"].append((scope, to))
-                return
-            if recv[0] == "edges" and len(e["args"]) == 2:
-                holder = recv[1]
-                if scope != "bytes-guarded" or self.val(e["args"][0]) != ("symbol",) or holder[0] != "fresh":
-                    self.err("byte edge %s outside `for symbol in 0..=MAX { if pred(symbol) {..} }`" % expr_text(e))
-                self.fresh[holder[1]]["bytes"].append(self.role(e["args"][1]))
-                return
-            if recv in (("states",), ("newmap",)) and len(e["args"]) == 2:
-                if scope != "once":
-                    self.err("state inserted inside a loop")
-                r = self.role(e["args"][0])
-                v = self.val(e["args"][1])
-                if v[0] != "fresh":
-                    self.err("inserted state %s" % expr_text(e["args"][1]))
-                if not r.startswith("N"):
-                    self.err("state inserted under an operand's id %s" % r)
-                if r in self.new_states:
-                    self.err("state %s inserted twice" % r)
-                f = self.fresh[v[1]]
+        if v[0] != "tuple" or len(v) != 3 or v[1] != ("symbol",) or v[2][0] != "role":
+            return None
+        return v[2][1]
+
+    def extend_edges(self, e, recv, arg=None, collected=None):
+        """state.edges.extend((0..=MAX).filter(|s| pred(*s)).map(|s| (s, to)))  ==  for s in 0..=MAX { if pred(s) { state.edges.insert(s, to); } }"""
+        holder = recv[1]
+        to = self.byte_pairs(e["args"][0] if arg is None else arg, collected)
+        if to is None or holder[0] != "fresh" or self.scope != "once" or self.fresh[holder[1]]["placed"]:
+            self.err("byte edges %s" % expr_text(e))
+        self.byte_loop_ok = True
+        self.fresh[holder[1]]["bytes"].append(to)
+        return _UNIT
+
+    def insert_val(self, e):
+        scope = self.scope
+        recv = self.val(e["recv"])
+        if recv[0] == "epsilons" and len(e["args"]) == 1:
+            holder = recv[1]
+            to = self.role(e["args"][0])
+            if scope not in ("once", "each", "adjacent"):
+                self.err("ε-edge inserted in scope %s" % scope)
+            self.sites.append(e.get("line", 0))
+            if holder[0] == "stateref":
+                self.eps.add((scope, holder[1], to))
+            else:
+                f = self.fresh[holder[1]]
                 if f["placed"]:
-                    self.err("local state inserted twice")
-                f["placed"] = True
-                self.new_states.add(r)
-                for (sc, to) in f["eps"]:
-                    self.eps.add((sc, r, to))
-                for to in f["bytes"]:
-                    self.byte_edges.add((r, to))
-                return
-            self.err("insert %s" % expr_text(e))
-        if k == "return":
-            self.err("unexpected return")
-        self.err("statement %s" % expr_text(e))
+                    self.err("edge added to a state after it was inserted")
+                f["eps"].append((scope, to))
+            return _UNIT
+        if recv[0] == "edges" and len(e["args"]) == 2:
+            holder = recv[1]
+            if scope != "bytes-guarded" or self.val(e["args"][0]) != ("symbol",) or holder[0] != "fresh":
+                self.err("byte edge %s outside `for symbol in 0..=MAX { if pred(symbol) {..} }`" % expr_text(e))
+            self.fresh[holder[1]]["bytes"].append(self.role(e["args"][1]))
+            return _UNIT
+        if recv in (("states",), ("newmap",)) and len(e["args"]) == 2:
+            self.insert_state(recv, e["args"][0], e["args"][1])
+            return _UNIT
+        self.err("insert %s" % expr_text(e))
 
     def template(self):
         self.run()
@@ -1504,10 +2174,10 @@ class _RoleEval:
         if self.arity == "unary" and self.merged is False and not self.self_taking:
             self.err("unary combinator without self")
         return Template(self.name, self.arity, self.reserve, self.new_states, self.eps, start, stop, self.on_empty, self.byte_edges,
-                        sites=["%s:%d" % (AUTOMATA, l) for l in sorted(set(self.sites))], extra={"eps_inserts": len(self.sites)})
+                        sites=["%s:%d" % (AUTOMATA, l) for l in sorted(set(self.sites))], extra={"eps_inserts": len(self.sites), "eps_inserts_static": len(self.sites) + self.static_extra})
 
 
-def _read_from_str(item):
+def _read_from_str(item, local=None):
     """Loop-invariant check of `impl From<&str> for NFA`: before iteration `index` state_id == NFAStateId(index) and `state` is a fresh
     edge-less state not yet inserted; the iteration inserts (NFAStateId(index) -> {symbol -> NFAStateId(index+1)}) and re-establishes
     the invariant for index+1; after the loop the pending state is inserted; result (NFAStateId(0), state_id)."""
@@ -1523,10 +2193,16 @@ def _read_from_str(item):
     inserted = []      # (key id, state value)
     loop_seen = False
 
-    def idval(e, idx=None):
+    def idval(e, idx=None, depth=0):
         e = _unref(e)
         if _is_path(e) and e["p"] in env and env[e["p"]][0] == "id":
             return env[e["p"]]
+        if _is_path(e) and e["p"] not in env and local is not None and depth < 4:
+            # a named constant of src/automata.rs, e.g. `const FIRST: NFAStateId = NFAStateId(0)`
+            cty, cnm = _split_callee(e["p"], "NFA")
+            c = local.const(cty, cnm)
+            if c is not None:
+                return idval(c["expr"], None, depth + 1)
         if e["k"] == "call" and _is_path(e["f"], "NFAStateId") and len(e["args"]) == 1:
             a = e["args"][0]
             n = _int_lit(a)
@@ -1579,9 +2255,14 @@ def _read_from_str(item):
                 if idx is not None or loop_seen:
                     err("nested or repeated loop")
                 it = e["iter"]
-                ok = it["k"] == "mcall" and it["m"] == "enumerate" and it["recv"]["k"] == "mcall" and it["recv"]["m"] == "bytes" and \
-                    _is_path(_unref(it["recv"]["recv"]), sparam)
+                ok = it["k"] == "mcall" and it["m"] == "enumerate" and not it["args"]
+                by = it["recv"] if ok else it
+                while by["k"] == "mcall" and by["m"] in ("iter", "into_iter", "copied", "cloned") and not by["args"]:
+                    by = by["recv"]       # string.as_bytes().iter().copied() yields the same bytes in the same order
+                ok = ok and by["k"] == "mcall" and by["m"] in ("bytes", "as_bytes") and not by["args"] and _is_path(_unref(by["recv"]), sparam)
                 pt = e["pat"]
+                if ok and pt["k"] == "tuple":
+                    pt = dict(pt, elems=[(x["pat"] if x["k"] == "ref" else x) for x in pt["elems"]])
                 if not ok or pt["k"] != "tuple" or len(pt["elems"]) != 2 or any(x["k"] != "ident" for x in pt["elems"]):
                     err("loop header %s" % expr_text(it))
                 loop_seen = True
@@ -1642,7 +2323,10 @@ def _read_from_str(item):
             if e["k"] == "mcall" and e["m"] == "insert":
                 r = _unref(e["recv"])
                 if r["k"] == "field" and r["name"] == "edges" and _is_path(r["e"]) and env.get(r["e"]["p"], ("?",))[0] == "state":
-                    if idx is None or not _is_path(_unref(e["args"][0]), sym):
+                    a0 = _unref(e["args"][0])
+                    while a0["k"] == "un" and a0["op"] == "*":
+                        a0 = a0["e"]
+                    if idx is None or not _is_path(a0, sym):
                         err("byte edge outside the loop / not on the loop symbol")
                     env[r["e"]["p"]][1].append(("sym", idval(e["args"][1], idx)))
                     continue
@@ -1680,181 +2364,911 @@ def _read_from_str(item):
     return Template(name, "leaf", 0, ("chain",), (), "C0", "Cn", None, (("Ci", "Ci+1"),))
 
 
-def _read_merge_states(item):
-    """facts about merge_states; returns (facts, problems)"""
-    facts = {}
-    problems = []
+def _lin(atoms=None, c=0):
+    """linear integer term  sum(coef * atom) + c  (hashable, canonical)"""
+    return ("lin", tuple(sorted((a, k) for a, k in (atoms or {}).items() if k != 0)), c)
 
-    def need(cond, what):
-        facts[what] = bool(cond)
-        if not cond:
-            problems.append(what)
-        return cond
-    inputs = item["sig"]["inputs"]
-    if len(inputs) != 2 or inputs[1]["pat"].get("k") != "ident":
-        return facts, ["signature (nfas, mut offset)"]
-    nfas = inputs[0]["pat"]["name"]
-    off = inputs[1]["pat"]["name"]
-    body = item["body"]["stmts"]
 
-    def is_shift(e, var):
-        e = _unref(e)
-        if e.get("k") != "call" or not _is_path(e["f"], "NFAStateId") or len(e["args"]) != 1:
-            return False
-        a = e["args"][0]
-        if a.get("k") != "bin" or a["op"] != "+":
-            return False
-        for x, y in ((a["l"], a["r"]), (a["r"], a["l"])):
-            if _is_path(x, off) and y.get("k") == "field" and y["name"] == "0" and _is_path(y["e"], var):
-                return True
+def _lin_add(x, y, sign=1):
+    d = dict(x[1])
+    for a, k in y[1]:
+        d[a] = d.get(a, 0) + sign * k
+    return _lin(d, x[2] + sign * y[2])
+
+
+def _raw(a):
+    return _lin({"raw:" + a: 1})
+
+
+def _shift_of(a):
+    """the id `a` moved by the offset the current operand started with: NFAStateId(offset + a.0)"""
+    return ("mkid", _lin({"O": 1, "raw:" + a: 1}))
+
+
+_MERGE_FACTS = (
+    "one loop over the operands",
+    "the loop iterates the `nfas` argument in order",
+    "operands are destructured into start/stop/states",
+    "result is (states_out, ends_out)",
+    "ends_out receives (offset+start, offset+stop) of every operand, in order",
+    "inner loop over the operand's states",
+    "inner loop pattern (id, state)",
+    "max_id starts at 0 for every operand (before its states are visited)",
+    "max_id = max(max_id, id.0) over the operand's original ids",
+    "state ids are shifted by the offset",
+    "edge targets are shifted by the offset",
+    "ε targets are shifted by the offset",
+    "shifted states (edges, epsilons, tag) are inserted into states_out under the shifted id",
+    "offset advances by max_id + 1 after each operand (strictly increasing, disjoint id ranges)",
+)
+_EMPTY_CTORS = ("BTreeMap::new", "BTreeSet::new", "Vec::new", "Default::default", "BTreeMap::default", "BTreeSet::default", "Vec::default",
+                "Vec::with_capacity")
+_STATE0 = ("state", ("oedges",), ("oeps",), ("otag",))
+_OPERAND = ("nfa", ("id", "start"), ("id", "stop"), ("ostates",))
+
+
+class _MergeEval:
+    """Symbolic evaluation of NFA::merge_states: one generic iteration of the operand loop and one generic iteration of the loop over the
+       operand's states.  Environment name -> term; the facts are decided on the terms that reach `ends_out.push`, `states_out.insert`,
+       the loop-carried maximum and the offset, whatever locals / helpers / closures / operand orders they went through.
+       Terms: lin (integers over the atoms O = offset at the start of the operand, raw:<id> = <id>.0 of an original id, carried:<v> / post:<v>
+       = loop-carried local before an iteration / after the loop, MAXALL = largest original id of the operand or 0) · ("id", a) original id
+       (a in start, stop, id, elem) · ("mkid", lin) = NFAStateId(lin) · ("max"|"min", {lin, lin}) · ("cmp", op, l, r) · ("tuple", ..) ·
+       ("nfa", start, stop, states) · ("state", edges, epsilons, tag) · ("ostates",) ("oedges",) ("oeps",) ("otag",) the operand's originals ·
+       ("sedges",) ("seps",) edge map / ε set with every target shifted · ("iter", kind, elem) · ("coll", uid) a collection created empty ·
+       ("closure", node, env id) · ("opaque", text)."""
+
+    def __init__(self, item, local=None):
+        self.item = item
+        self.local = local or _LocalDefs()
+        self.problems = []
+        self.env = {}
+        self.mut = set()
+        self.level = "pre"
+        self.pure = 0
+        self.cond = 0
+        self.colls = {}            # uid -> {"level", "name"}
+        self.pushes = []
+        self.inserts = []
+        self.edge_inserts = []
+        self.carried = {}
+        self.outer_locals = set()
+        self.outer_count = 0
+        self.outer_iter_ok = False
+        self.outer_bind_ok = False
+        self.inner_count = 0
+        self.inner_bind_ok = True
+        self.other_loops = 0
+        self.off_after = None
+        self.self_ty = ["NFA"]
+        self.call_stack = []
+        self.local_consts = {}
+        self.closure_envs = []
+        self.off = None
+
+    def problem(self, what):
+        if what not in self.problems:
+            self.problems.append(what)
+
+    # ---------------------------------------------------------------- terms
+    def opaque(self, e, note=True):
+        names = set()
+
+        def visit(n):
+            if n.get("k") == "path":
+                names.add(n["p"])
+        ordered_walk(e, visit)
+        for n in sorted(names):
+            t = self.env.get(n)
+            if t is None:
+                continue
+            if n in self.mut or (t[0] == "coll" and self.colls[t[1]]["level"] == "pre"):
+                if note:
+                    self.problem("construct not understood: %s" % expr_text(e))
+                break
+        return ("opaque", expr_text(e))
+
+    def new_coll(self):
+        uid = len(self.colls)
+        self.colls[uid] = {"level": self.level, "pure": self.pure > 0}
+        return ("coll", uid)
+
+    @staticmethod
+    def mk_max(kind, a, b):
+        if a == b:
+            return a
+        return (kind, frozenset((a, b)))
+
+    def ite(self, c, a, b):
+        if a == b:
+            return a
+        neg = False
+        while c[0] == "not":
+            neg = not neg
+            c = c[1]
+        if neg:
+            a, b = b, a
+        if c[0] == "cmp" and a[0] == "lin" and b[0] == "lin" and c[1] in (">", ">=", "<", "<=") and {a, b} == {c[2], c[3]}:
+            l = c[2]
+            if c[1] in (">", ">="):
+                return self.mk_max("max" if a == l else "min", a, b)
+            return self.mk_max("min" if a == l else "max", a, b)
+        return ("opaque", "conditional value")
+
+    def to_iter(self, t):
+        if t[0] == "iter":
+            return t
+        if t == ("nfas",):
+            return ("iter", "nfas", _OPERAND)
+        if t == ("ostates",):
+            return ("iter", "ostates", ("tuple", ("id", "id"), _STATE0))
+        if t == ("oedges",):
+            return ("iter", "edges", ("tuple", ("sym",), ("id", "elem")))
+        if t == ("oeps",):
+            return ("iter", "eps", ("id", "elem"))
+        if t == ("sedges",):
+            return ("iter", "edges", ("tuple", ("sym",), _shift_of("elem")))
+        if t == ("seps",):
+            return ("iter", "eps", _shift_of("elem"))
+        return None
+
+    @staticmethod
+    def classify(kind, elem):
+        """collection obtained by collecting an iterator over the edges / ε targets of the current state whose element is `elem`"""
+        if kind == "edges":
+            if elem[0] != "tuple" or len(elem) != 3 or elem[1] != ("sym",):
+                return None
+            x, names = elem[2], ("oedges", "sedges")
+        elif kind == "eps":
+            x, names = elem, ("oeps", "seps")
+        else:
+            return None
+        if x == ("id", "elem"):
+            return (names[0],)
+        if x == _shift_of("elem"):
+            return (names[1],)
+        return None
+
+    def value_type(self, t):
+        if t[0] in ("id", "mkid"):
+            return "NFAStateId"
+        if t[0] == "state":
+            return "NFAState"
+        if t[0] == "nfa":
+            return "NFA"
+        return None
+
+    # ---------------------------------------------------------------- patterns
+    def bind(self, pat, t):
+        k = pat["k"]
+        if k == "wild":
+            return True
+        if k == "ident" and not pat.get("sub"):
+            if pat["name"] == self.off and not self.call_stack:
+                self.problem("construct not understood: the offset parameter is shadowed")
+            self.env[pat["name"]] = t
+            self.mut.discard(pat["name"])
+            if pat.get("mut"):
+                self.mut.add(pat["name"])
+            if self.level == "outer" and not self.call_stack and not self.pure:
+                self.outer_locals.add(pat["name"])
+            else:
+                self.outer_locals.discard(pat["name"])
+            return True
+        if k == "ref":
+            return self.bind(pat["pat"], t)
+        if k == "tuple" and t[0] == "tuple" and len(t) - 1 == len(pat["elems"]):
+            return all([self.bind(p, x) for p, x in zip(pat["elems"], t[1:])])
+        if k == "struct":
+            ty = self.self_ty[-1] if pat["path"] == "Self" else base_name(pat["path"])
+            fields = None
+            if ty == "NFA" and t[0] == "nfa":
+                fields = {"start": t[1], "stop": t[2], "states": t[3]}
+            elif ty == "NFAState" and t[0] == "state":
+                fields = {"edges": t[1], "epsilons": t[2], "tag": t[3]}
+            if fields is not None and all(f["name"] in fields for f in pat["fields"]):
+                return all([self.bind(f["pat"], fields[f["name"]]) for f in pat["fields"]])
+        if k == "tstruct" and base_name(pat["path"]) == "NFAStateId" and len(pat["elems"]) == 1 and t[0] in ("id", "mkid"):
+            return self.bind(pat["elems"][0], _raw(t[1]) if t[0] == "id" else t[1])
+        # not understood: every name of the pattern becomes opaque
+        def visit(n):
+            if n.get("k") == "ident" and "name" in n:
+                self.env[n["name"]] = ("opaque", "pattern %s" % pat_text(pat))
+        ordered_walk(pat, visit)
         return False
-    def addends(e):
-        if e.get("k") == "bin" and e["op"] == "+":
-            return addends(e["l"]) + addends(e["r"])
-        return [e]
-    outer = [st["e"] for st in body if st["k"] == "expr" and st["e"]["k"] == "for"]
-    if not need(len(outer) == 1, "one loop over the operands"):
-        return facts, problems
-    outer = outer[0]
-    need(_is_path(_unref(outer["iter"]), nfas), "the loop iterates the `nfas` argument in order")
-    pat = outer["pat"]
-    binds = {}
-    if pat["k"] == "struct" and pat["path"] in ("NFA", "Self"):
-        for f in pat["fields"]:
-            if f["pat"]["k"] == "ident":
-                binds[f["name"]] = f["pat"]["name"]
-    if not need(set(binds) == {"start", "stop", "states"}, "operands are destructured into start/stop/states"):
-        return facts, problems
-    # result tuple (states_out, ends_out)
-    res = body[-1]["e"] if body[-1]["k"] == "expr" and not body[-1]["semi"] else None
-    if not need(res is not None and res["k"] == "tuple" and len(res["elems"]) == 2 and all(_is_path(x) for x in res["elems"]), "result is (states_out, ends_out)"):
-        return facts, problems
-    states_out, ends_out = res["elems"][0]["p"], res["elems"][1]["p"]
-    cur = {"start": binds["start"], "stop": binds["stop"]}
-    shifted = {}
-    pushed = None
-    inner = None
-    max_id = None
-    max_init_ok = False
-    offset_updates = []
-    stm = outer["body"]["stmts"]
-    for i, st in enumerate(stm):
-        if st["k"] == "let" and st["pat"]["k"] == "ident" and st["init"] is not None:
-            nm = st["pat"]["name"]
-            for role in ("start", "stop"):
-                if is_shift(st["init"], cur[role]):
-                    shifted[nm] = role
-            if _int_lit(st["init"]) is not None and st["pat"].get("mut"):
-                if max_id is None:
-                    max_id = nm
-                    max_init_ok = _int_lit(st["init"]) == 0 and inner is None
-        elif st["k"] == "expr":
-            e = st["e"]
-            if e["k"] == "mcall" and e["m"] == "push" and _is_path(e["recv"], ends_out) and len(e["args"]) == 1 and e["args"][0]["k"] == "tuple":
-                el = e["args"][0]["elems"]
-                pushed = tuple(shifted.get(x["p"]) if _is_path(x) else None for x in el)
-            elif e["k"] == "for":
-                inner = (i, e)
-            elif e["k"] == "bin" and e["op"] == "+=" and _is_path(e["l"], off):
-                offset_updates.append((i, addends(e["r"])))
-            elif e["k"] == "assign" and _is_path(e["l"], off):
-                terms = addends(e["r"])
-                mine = [x for x in terms if _is_path(x, off)]
-                if len(mine) == 1:
-                    offset_updates.append((i, [x for x in terms if x is not mine[0]]))
+
+    # ---------------------------------------------------------------- expressions
+    def ev(self, e):
+        if e is None:
+            return ("unit",)
+        if e.get("k") == "ref":
+            inner = _unref(e)
+            if e.get("mut") and _is_path(inner) and inner["p"] in self.env and self.env[inner["p"]][0] != "coll" and \
+                    (inner["p"] in self.mut):
+                self.problem("construct not understood: &mut %s" % inner["p"])
+            return self.ev(inner)
+        k = e["k"]
+        if k == "lit":
+            if e.get("t") == "int":
+                return _lin(c=int(e["v"]))
+            return ("opaque", expr_text(e))
+        if k == "path":
+            p = e["p"]
+            if p in self.env:
+                return self.env[p]
+            return self.const_term(e)
+        if k == "un":
+            if e["op"] == "*":
+                return self.ev(e["e"])
+            if e["op"] == "!":
+                return ("not", self.ev(e["e"]))
+            return self.opaque(e)
+        if k == "cast" and e.get("ty") in ("usize", "u64", "u128"):
+            return self.ev(e["e"])
+        if k == "field":
+            return self.field(self.ev(e["e"]), e["name"], e)
+        if k == "tuple":
+            if not e["elems"]:
+                return ("unit",)
+            return ("tuple",) + tuple(self.ev(x) for x in e["elems"])
+        if k == "bin":
+            return self.binop(e)
+        if k == "assign":
+            return self.assign(e["l"], self.ev(e["r"]), e)
+        if k == "call":
+            return self.call(e)
+        if k == "mcall":
+            return self.mcall(e)
+        if k == "struct":
+            return self.struct(e)
+        if k == "closure":
+            self.closure_envs.append(dict(self.env))
+            return ("closure", id(e), len(self.closure_envs) - 1, e)
+        if k == "block" and not e.get("label"):
+            return self.scoped(e["stmts"])
+        if k == "if":
+            return self.if_(e)
+        if k == "match":
+            return self.match(e)
+        if k == "for":
+            if e.get("label"):
+                self.problem("construct not understood: labelled loop")
+            self.loop(self.ev(e["iter"]), e["pat"], e["body"], e)
+            return ("unit",)
+        if k == "macro":
+            if e.get("short") in ("debug_assert", "debug_assert_eq", "debug_assert_ne"):
+                return ("unit",)
+            if e.get("short") == "vec" and e.get("args") == [] and not (e.get("extra") or {}).get("repeat"):
+                return self.new_coll()
+            return self.opaque(e)
+        if k in ("continue", "break", "return"):
+            self.problem("early exit from the operand loop")
+            return ("unit",)
+        return self.opaque(e)
+
+    def const_term(self, e):
+        p = e["p"]
+        ty, nm = _split_callee(p, self.self_ty[-1])
+        node = None
+        if ty is None and nm in self.local_consts:
+            node = self.local_consts[nm]
+        else:
+            c = self.local.const(ty, nm)
+            if c is not None:
+                node = c["expr"]
+        if node is None or len(self.call_stack) >= 6:
+            if p == "None":
+                return ("none",)
+            return ("opaque", p)
+        saved, self.env = self.env, {}
+        self.call_stack.append(("const", p))
+        self.self_ty.append(ty or self.self_ty[-1])
+        try:
+            return self.ev(node)
+        finally:
+            self.self_ty.pop()
+            self.call_stack.pop()
+            self.env = saved
+
+    def field(self, b, nm, e):
+        if b[0] == "nfa" and nm in ("start", "stop", "states"):
+            return b[1 + ("start", "stop", "states").index(nm)]
+        if b[0] == "state" and nm in ("edges", "epsilons", "tag"):
+            return b[1 + ("edges", "epsilons", "tag").index(nm)]
+        if nm == "0" and b[0] == "id":
+            return _raw(b[1])
+        if nm == "0" and b[0] == "mkid":
+            return b[1]
+        if b[0] == "tuple" and nm.isdigit() and int(nm) < len(b) - 1:
+            return b[1 + int(nm)]
+        return self.opaque(e)
+
+    def binop(self, e):
+        op = e["op"]
+        if op in ("+=", "-="):
+            l = self.ev(e["l"])
+            r = self.ev(e["r"])
+            t = _lin_add(l, r, 1 if op == "+=" else -1) if l[0] == "lin" and r[0] == "lin" else ("opaque", expr_text(e))
+            return self.assign(e["l"], t, e)
+        l, r = self.ev(e["l"]), self.ev(e["r"])
+        if op in ("+", "-"):
+            if l[0] == "lin" and r[0] == "lin":
+                return _lin_add(l, r, 1 if op == "+" else -1)
+            return ("opaque", expr_text(e))
+        if op in ("<", "<=", ">", ">=", "==", "!="):
+            return ("cmp", op, l, r)
+        return self.opaque(e)
+
+    def assign(self, lhs, t, e):
+        lhs0 = lhs
+        while lhs0.get("k") == "un" and lhs0["op"] == "*":
+            lhs0 = lhs0["e"]
+        if _is_path(lhs0) and lhs0["p"] in self.env and lhs0 is lhs:
+            n = lhs["p"]
+            if self.pure:
+                self.problem("construct not understood: assignment to %s inside a closure" % n)
+            self.env[n] = t
+            return ("unit",)
+        if lhs.get("k") == "field" and _is_path(lhs["e"]) and self.env.get(lhs["e"]["p"], ("?",))[0] == "state" and \
+                lhs["name"] in ("edges", "epsilons", "tag") and not self.pure:
+            st = list(self.env[lhs["e"]["p"]])
+            st[1 + ("edges", "epsilons", "tag").index(lhs["name"])] = t
+            self.env[lhs["e"]["p"]] = tuple(st)
+            return ("unit",)
+        self.opaque(e)
+        self.problem("construct not understood: assignment %s" % expr_text(e))
+        return ("unit",)
+
+    def mkid(self, x):
+        if x[0] != "lin":
+            return ("opaque", "NFAStateId(%s)" % (x,))
+        if x[2] == 0 and len(x[1]) == 1 and x[1][0][1] == 1 and x[1][0][0].startswith("raw:"):
+            return ("id", x[1][0][0][4:])
+        return ("mkid", x)
+
+    def call(self, e):
+        f = e["f"]
+        args = e["args"]
+        if not _is_path(f):
+            return self.opaque(e)
+        p = f["p"]
+        if p in self.env:
+            t = self.env[p]
+            if t[0] == "closure":
+                return self.apply(t, [self.ev(a) for a in args], e)
+            return self.opaque(e)
+        ty, last = _split_callee(p, self.self_ty[-1])
+        if (p == "NFAStateId" or (p == "Self" and self.self_ty[-1] == "NFAStateId")) and len(args) == 1:
+            return self.mkid(self.ev(args[0]))
+        item = self.local.fn(ty, last)
+        if item is not None:
+            return self.call_fn(item, ty, None, args, e)
+        if last in ("max", "min") and len(args) == 2 and ty in (None, "cmp", "usize", "Ord"):
+            a, b = self.ev(args[0]), self.ev(args[1])
+            if a[0] == "lin" and b[0] == "lin":
+                return self.mk_max(last, a, b)
+            return ("opaque", expr_text(e))
+        if p in _EMPTY_CTORS and (not args or p == "Vec::with_capacity"):
+            return self.new_coll()
+        if p == "Some" and len(args) == 1:
+            return ("some", self.ev(args[0]))
+        return self.opaque(e)
+
+    def call_fn(self, item, ty, recv, arg_nodes, e):
+        name = item["name"]
+        key = (ty, name)
+        inputs = item["sig"]["inputs"]
+        has_self = bool(inputs) and inputs[0]["name"] == "self"
+        params = inputs[1:] if has_self else inputs
+        arg_nodes = list(arg_nodes)
+        if key in self.call_stack or len(self.call_stack) >= 6 or (ty == "NFA" and (name in COMBINATORS or name == "merge_states")):
+            return self.opaque(e)
+        vals = [self.ev(a) for a in arg_nodes]
+        if has_self and recv is None:
+            if len(vals) != len(params) + 1:
+                return self.opaque(e)
+            recv = vals.pop(0)
+        elif recv is not None and not has_self:
+            return self.opaque(e)
+        if len(params) != len(vals):
+            return self.opaque(e)
+        saved_env, saved_consts, saved_mut = self.env, self.local_consts, self.mut
+        self.env, self.local_consts, self.mut = {}, {}, set()
+        if has_self:
+            self.env["self"] = recv
+        self.call_stack.append(key)
+        self.self_ty.append(ty or self.self_ty[-1])
+        try:
+            for p, v in zip(params, vals):
+                self.bind(p["pat"], v)
+            return self.block(item["body"]["stmts"])
+        finally:
+            self.self_ty.pop()
+            self.call_stack.pop()
+            self.env, self.local_consts, self.mut = saved_env, saved_consts, saved_mut
+
+    def apply(self, f, vals, e=None):
+        """call of a closure value (evaluated over the environment it was created in) or of a path naming a local fn"""
+        if f[0] != "closure":
+            return ("opaque", "call of %s" % (f[0],))
+        node = f[3]
+        if len(node["params"]) != len(vals) or len(self.call_stack) >= 6:
+            return ("opaque", "closure call")
+        saved_env, saved_mut = self.env, self.mut
+        self.env, self.mut = dict(self.closure_envs[f[2]]), set(self.mut)
+        self.pure += 1
+        self.call_stack.append(("closure", f[1]))
+        try:
+            for p, v in zip(node["params"], vals):
+                self.bind(p, v)
+            b = node["body"]
+            return self.block(b["stmts"]) if b["k"] == "block" else self.ev(b)
+        finally:
+            self.call_stack.pop()
+            self.pure -= 1
+            self.env, self.mut = saved_env, saved_mut
+
+    def fn_value(self, a):
+        """argument of map(..): a closure, a local closure variable or a path of a local fn -> callable(elem) -> term"""
+        a0 = _unref(a)
+        if a0.get("k") == "closure":
+            f = self.ev(a0)
+            return lambda x: self.apply(f, [x])
+        if _is_path(a0):
+            if a0["p"] in self.env and self.env[a0["p"]][0] == "closure":
+                f = self.env[a0["p"]]
+                return lambda x: self.apply(f, [x])
+            ty, last = _split_callee(a0["p"], self.self_ty[-1])
+            item = self.local.fn(ty, last)
+            if item is not None:
+                return lambda x: self.call_fn_terms(item, ty, [x], a0)
+        return None
+
+    def call_fn_terms(self, item, ty, terms, e):
+        # call a local fn with already evaluated arguments: wrap them in synthetic names
+        saved = self.env
+        self.env = dict(saved)
+        nodes = []
+        for i, t in enumerate(terms):
+            nm = "\x00arg%d" % i
+            self.env[nm] = t
+            nodes.append({"k": "path", "p": nm})
+        try:
+            return self.call_fn(item, ty, None, nodes, e)
+        finally:
+            self.env = saved
+
+    def mcall(self, e):
+        m, args = e["m"], e["args"]
+        rt = self.ev(e["recv"])
+        if rt[0] == "coll":
+            info = self.colls[rt[1]]
+            if m == "push" and len(args) == 1:
+                self.pushes.append({"uid": rt[1], "level": self.level, "cond": self.cond > 0 or self.pure > 0, "t": self.ev(args[0])})
+                return ("unit",)
+            if m == "insert" and len(args) in (1, 2):
+                ts = [self.ev(a) for a in args]
+                if info["level"] == "pre":
+                    if len(ts) != 2:
+                        return self.opaque(e)
+                    self.inserts.append({"uid": rt[1], "level": self.level, "cond": self.cond > 0 or self.pure > 0, "k": ts[0], "v": ts[1]})
                 else:
-                    offset_updates.append((i, None))
-            elif e["k"] in ("continue", "break", "return"):
-                problems.append("early exit from the operand loop")
-    need(pushed == ("start", "stop"), "ends_out receives (offset+start, offset+stop) of every operand, in order")
-    if not need(inner is not None and _is_path(_unref(inner[1]["iter"]), binds["states"]), "inner loop over the operand's states"):
-        return facts, problems
-    ii, inner = inner
-    ip = inner["pat"]
-    if not need(ip["k"] == "tuple" and len(ip["elems"]) == 2 and all(x["k"] == "ident" for x in ip["elems"]), "inner loop pattern (id, state)"):
-        return facts, problems
-    idv, stv = ip["elems"][0]["name"], ip["elems"][1]["name"]
-    names = {"edges": None, "epsilons": None, "tag": None}
-    new_id = None
-    max_upd = False
-    edges_ok = eps_ok = insert_ok = False
-    orig_id = idv
+                    self.edge_inserts.append({"uid": rt[1], "level": self.level, "cond": self.cond > 0 or self.pure > 0, "args": ts})
+                return ("unit",)
+            if m == "extend" and len(args) == 1 and info["level"] == "pre":
+                it = self.ev(args[0])
+                it = self.to_iter(it) or it
+                if it[0] == "iter" and it[1] == "ostates" and it[2][0] == "tuple" and len(it[2]) == 3 and self.level == "outer":
+                    self.inner_count += 1
+                    self.inserts.append({"uid": rt[1], "level": "inner", "cond": self.cond > 0 or self.pure > 0, "k": it[2][1], "v": it[2][2]})
+                    return ("unit",)
+                return self.opaque(e)
+            if m in ("reserve",) and len(args) == 1:
+                return ("unit",)
+            return self.opaque(e)
+        if m in ("max", "min") and len(args) == 1 and rt[0] == "lin":
+            b = self.ev(args[0])
+            if b[0] == "lin":
+                return self.mk_max(m, rt, b)
+            return ("opaque", expr_text(e))
+        if m in ("clone", "to_owned", "copied", "cloned", "into") and not args:
+            return rt
+        if m in ("into_iter", "iter") and not args:
+            return self.to_iter(rt) or self.opaque(e)
+        if m in ("keys", "into_keys") and not args and rt == ("ostates",):
+            return ("iter", "keys", ("id", "id"))
+        if m == "last_key_value" and not args and rt == ("ostates",):
+            return ("optmax", ("tuple", ("id", "id"), _STATE0))
+        if rt[0] == "iter":
+            if m == "map" and len(args) == 1:
+                f = self.fn_value(args[0])
+                if f is None:
+                    return self.opaque(e)
+                return ("iter", rt[1], f(rt[2]))
+            if m == "collect" and not args:
+                return self.classify(rt[1], rt[2]) or ("opaque", expr_text(e))
+            if m == "for_each" and len(args) == 1 and _closure_of(args[0]) is not None and len(_closure_of(args[0])["params"]) == 1:
+                c = _closure_of(args[0])
+                self.loop(rt, c["params"][0], c["body"], e)
+                return ("unit",)
+            if rt[1] == "keys" and not args and (m == "max" or (m in ("last", "next_back") and rt[2] == ("id", "id"))) and \
+                    rt[2] in (("id", "id"), _raw("id")):
+                return ("optmax", rt[2])
+            return self.opaque(e)
+        if rt[0] == "optmax":
+            if m == "map" and len(args) == 1:
+                f = self.fn_value(args[0])
+                return ("optmax", f(rt[1])) if f is not None else self.opaque(e)
+            if m == "unwrap_or" and len(args) == 1 and self.ev(args[0]) == _lin(c=0) and rt[1] == _raw("id"):
+                return _lin({"MAXALL": 1})
+            if m == "unwrap_or_default" and not args and rt[1] == _raw("id"):
+                return _lin({"MAXALL": 1})
+            if m == "map_or" and len(args) == 2 and self.ev(args[0]) == _lin(c=0):
+                f = self.fn_value(args[1])
+                if f is not None and f(rt[1]) == _raw("id"):
+                    return _lin({"MAXALL": 1})
+            return self.opaque(e)
+        ty = self.value_type(rt)
+        if ty is not None:
+            item = self.local.fn(ty, m)
+            if item is not None and item["sig"]["inputs"] and item["sig"]["inputs"][0]["name"] == "self":
+                return self.call_fn(item, ty, rt, args, e)
+        for a in args:
+            self.ev(a)
+        return self.opaque(e)
 
-    def shift_closure(c, tuple_second):
-        c = _unref(c)
-        if c.get("k") != "closure" or len(c["params"]) != 1:
-            return False
-        p = c["params"][0]
-        if tuple_second:
-            if p["k"] != "tuple" or len(p["elems"]) != 2 or any(x["k"] != "ident" for x in p["elems"]):
-                return False
-            kk, vv = p["elems"][0]["name"], p["elems"][1]["name"]
-            b = c["body"]
-            return b["k"] == "tuple" and len(b["elems"]) == 2 and _is_path(b["elems"][0], kk) and is_shift(b["elems"][1], vv)
-        if p["k"] != "ident":
-            return False
-        return is_shift(c["body"], p["name"])
+    def struct(self, e):
+        ty = self.self_ty[-1] if e["path"] == "Self" else base_name(e["path"])
+        if ty != "NFAState":
+            return self.opaque(e)
+        f = {x["name"]: self.ev(x["e"]) for x in e["fields"]}
+        base = self.ev(e["rest"]) if e.get("rest") else None
+        out = []
+        for i, nm in enumerate(("edges", "epsilons", "tag")):
+            if nm in f:
+                out.append(f[nm])
+            elif base is not None and base[0] == "state":
+                out.append(base[1 + i])
+            else:
+                out.append(("opaque", "missing field %s" % nm))
+        if set(f) - {"edges", "epsilons", "tag"}:
+            return ("opaque", expr_text(e))
+        return ("state",) + tuple(out)
 
-    def mapped(e, var, tuple_second):
-        # var.into_iter().map(closure).collect()
-        if e.get("k") != "mcall" or e["m"] != "collect":
-            return False
-        m = e["recv"]
-        if m.get("k") != "mcall" or m["m"] != "map" or len(m["args"]) != 1:
-            return False
-        s = m["recv"]
-        if s.get("k") != "mcall" or s["m"] not in ("into_iter", "iter") or not _is_path(s["recv"], var):
-            return False
-        return shift_closure(m["args"][0], tuple_second)
-    for st in inner["body"]["stmts"]:
-        if st["k"] == "let":
-            p = st["pat"]
-            init = st["init"]
-            if p["k"] == "struct" and p["path"] == "NFAState" and _is_path(init, stv):
-                for f in p["fields"]:
-                    if f["pat"]["k"] == "ident" and f["name"] in names:
-                        names[f["name"]] = f["pat"]["name"]
-            elif p["k"] == "ident" and is_shift(init, orig_id) and new_id is None:
-                new_id = p["name"]
-                if new_id == orig_id:
-                    orig_id = None       # shadowed: later uses of the name mean the shifted id
-            elif p["k"] == "ident" and names["edges"] and mapped(init, names["edges"], True):
-                names["edges"] = p["name"]
-                edges_ok = True
-            elif p["k"] == "ident" and names["epsilons"] and mapped(init, names["epsilons"], False):
-                names["epsilons"] = p["name"]
-                eps_ok = True
-        elif st["k"] == "expr":
-            e = st["e"]
-            if e["k"] == "assign" and max_id and _is_path(e["l"], max_id):
-                r = e["r"]
-                argsr = r.get("args", []) if r.get("k") == "call" else ([r["recv"]] + r["args"] if r.get("k") == "mcall" and r["m"] == "max" else [])
-                if (r.get("k") == "call" and _is_path(r["f"]) and r["f"]["p"].split("::")[-1] == "max") or (r.get("k") == "mcall" and r["m"] == "max"):
-                    a = [x for x in argsr]
-                    has_max = any(_is_path(x, max_id) for x in a)
-                    has_id = any(x.get("k") == "field" and x["name"] == "0" and _is_path(x["e"], idv) for x in a)
-                    max_upd = has_max and has_id and new_id is None
-            elif e["k"] == "mcall" and e["m"] == "insert" and _is_path(e["recv"], states_out) and len(e["args"]) == 2:
-                k0, v0 = e["args"]
-                if _is_path(k0, new_id) and v0["k"] == "struct" and v0["path"] == "NFAState":
-                    f = {x["name"]: x["e"] for x in v0["fields"]}
-                    insert_ok = set(f) == {"edges", "epsilons", "tag"} and _is_path(f["edges"], names["edges"]) and \
-                        _is_path(f["epsilons"], names["epsilons"]) and _is_path(f["tag"], names["tag"]) and edges_ok and eps_ok
-    need(max_id is not None and max_init_ok, "max_id starts at 0 for every operand (before its states are visited)")
-    need(max_upd, "max_id = max(max_id, id.0) over the operand's original ids")
-    need(new_id is not None, "state ids are shifted by the offset")
-    need(edges_ok, "edge targets are shifted by the offset")
-    need(eps_ok, "ε targets are shifted by the offset")
-    need(insert_ok, "shifted states (edges, epsilons, tag) are inserted into states_out under the shifted id")
-    good = False
-    if len(offset_updates) == 1 and offset_updates[0][0] > ii:
-        r = offset_updates[0][1]
-        if r is not None and len(r) == 2:
-            for x, y in ((r[0], r[1]), (r[1], r[0])):
-                if _is_path(x, max_id) and _int_lit(y) is not None and _int_lit(y) >= 1:
-                    good = True
-    need(good, "offset advances by max_id + 1 after each operand (strictly increasing, disjoint id ranges)")
-    return facts, problems
+    def if_(self, e):
+        if e["cond"].get("k") == "letcond":
+            self.opaque(e["cond"])
+            c = ("opaque", "if let")
+        else:
+            c = self.ev(e["cond"])
+        base = dict(self.env)
+        self.cond += 1
+        try:
+            vt = self.scoped(e["then"]["stmts"])
+            env_t = self.env
+            self.env = dict(base)
+            if e.get("else") is not None:
+                ve = self.scoped(e["else"]["stmts"]) if e["else"]["k"] == "block" else self.ev(e["else"])
+            else:
+                ve = ("unit",)
+            env_e = self.env
+        finally:
+            self.cond -= 1
+        merged = {}
+        for n in base:
+            a, b = env_t.get(n, base[n]), env_e.get(n, base[n])
+            merged[n] = self.ite(c, a, b)
+        self.env = merged
+        if e.get("else") is None:
+            return ("unit",)
+        return self.ite(c, vt, ve)
+
+    def match(self, e):
+        # match <bool> { true => a, false => b }  /  match a.cmp(&b) { Ordering::Greater => .., _ => .. } are folded to conditionals
+        sc = e["e"]
+        arms = e["arms"]
+        if len(arms) == 2 and all(a.get("guard") is None for a in arms):
+            def litbool(p):
+                return p["e"]["v"] if p["k"] == "lit" and p["e"].get("t") == "bool" else None
+            b0, b1 = litbool(arms[0]["pat"]), litbool(arms[1]["pat"])
+            wild1 = arms[1]["pat"]["k"] == "wild"
+            if b0 is not None and (b1 == (not b0) or wild1):
+                th, el = (arms[0], arms[1]) if b0 else (arms[1], arms[0])
+                return self.if_({"k": "if", "cond": sc, "then": self.as_block(th["body"]), "else": self.as_block(el["body"])})
+            if sc.get("k") == "mcall" and sc["m"] == "cmp" and len(sc["args"]) == 1 and arms[0]["pat"]["k"] in ("path", "ident") and wild1:
+                which = (arms[0]["pat"].get("p") or arms[0]["pat"].get("name", "")).split("::")[-1]
+                op = {"Greater": ">", "Less": "<"}.get(which)
+                if op:
+                    cond = {"k": "bin", "op": op, "l": sc["recv"], "r": _unref(sc["args"][0])}
+                    return self.if_({"k": "if", "cond": cond, "then": self.as_block(arms[0]["body"]), "else": self.as_block(arms[1]["body"])})
+        self.problem("construct not understood: match %s" % expr_text(sc))
+        return self.opaque(e)
+
+    @staticmethod
+    def as_block(b):
+        if b["k"] == "block":
+            return b
+        return {"k": "block", "stmts": [{"k": "expr", "e": b, "semi": False}]}
+
+    # ---------------------------------------------------------------- statements
+    def block(self, stmts, top=False):
+        res = ("unit",)
+        for i, st in enumerate(stmts):
+            last = i == len(stmts) - 1
+            res = ("unit",)
+            if st["k"] == "let":
+                if st.get("else") is not None:
+                    self.problem("construct not understood: let-else %s" % pat_text(st["pat"]))
+                t = self.ev(st["init"]) if st.get("init") is not None else ("opaque", "uninitialised")
+                if not self.bind(st["pat"], t) and st["pat"]["k"] != "ident":
+                    self.problem("construct not understood: pattern %s" % pat_text(st["pat"]))
+            elif st["k"] == "item":
+                it = st["item"]
+                if it.get("k") == "const":
+                    self.local_consts[it["name"]] = it["expr"]
+                elif it.get("k") != "use":
+                    self.problem("construct not understood: nested item")
+            elif st["k"] == "expr":
+                e = st["e"]
+                if last and top and e["k"] == "return" and e.get("e") is not None:
+                    res = self.ev(e["e"])
+                else:
+                    v = self.ev(e)
+                    if last and not st["semi"]:
+                        res = v
+            else:
+                self.problem("construct not understood: statement kind %s" % st["k"])
+        return res
+
+    def scoped(self, stmts):
+        """a nested block: names introduced inside do not escape, assignments to outer names do"""
+        before = dict(self.env)
+        saved_consts = dict(self.local_consts)
+        saved_mut = set(self.mut)
+        # shadowing inside the block must not leak: evaluate on a copy and copy back only names that existed before and were *assigned*
+        assigned = set()
+
+        def visit(n):
+            if n.get("k") == "assign" or (n.get("k") == "bin" and n.get("op") in ("+=", "-=")):
+                l = n["l"]
+                while l.get("k") == "un":
+                    l = l["e"]
+                if l.get("k") == "field":
+                    l = l["e"]
+                if _is_path(l):
+                    assigned.add(l["p"])
+        ordered_walk(stmts, visit)
+        shadowed = set()
+        for st in stmts:
+            if st["k"] == "let":
+                def pv(n):
+                    if n.get("k") == "ident" and "name" in n:
+                        shadowed.add(n["name"])
+                ordered_walk(st["pat"], pv)
+        res = self.block(stmts)
+        after = self.env
+        out = dict(before)
+        for n in assigned:
+            if n in before and n in after:
+                if n in shadowed:
+                    self.problem("construct not understood: %s is both shadowed and assigned in a nested block" % n)
+                else:
+                    out[n] = after[n]
+        # collections filled by an edge loop are rewritten in place by edge_loop(); keep those updates
+        for n, t in after.items():
+            if n in before and n not in shadowed and before[n][0] == "coll" and t[0] != "coll":
+                out[n] = t
+        self.env, self.local_consts, self.mut = out, saved_consts, saved_mut
+        return res
+
+    # ---------------------------------------------------------------- loops
+    def loop(self, it, pat, body, node):
+        it = self.to_iter(it) or it
+        stmts = body["stmts"] if body["k"] == "block" else [{"k": "expr", "e": body, "semi": True}]
+        if it[0] != "iter" or self.pure or self.cond:
+            self.other_loops += 1
+            self.problem("construct not understood: loop over %s" % expr_text(node.get("iter") or node.get("recv") or node))
+            return
+        kind = it[1]
+        if kind == "nfas" and self.level == "pre":
+            return self.outer_loop(it, pat, stmts)
+        if kind in ("ostates", "keys") and self.level == "outer":
+            return self.inner_loop(it, pat, stmts)
+        if kind in ("edges", "eps") and self.level == "inner":
+            return self.edge_loop(it, pat, stmts)
+        self.other_loops += 1
+        self.problem("construct not understood: loop over %s at level %s" % (kind, self.level))
+
+    def assigned_in(self, stmts):
+        names = set()
+
+        def visit(n):
+            if n.get("k") == "assign" or (n.get("k") == "bin" and n.get("op") in ("+=", "-=", "*=", "|=", "&=", "^=", "/=", "%=", "<<=", ">>=")):
+                l = n["l"]
+                while l.get("k") in ("un", "field", "index"):
+                    l = l["e"]
+                if _is_path(l):
+                    names.add(l["p"])
+        ordered_walk(stmts, visit)
+        return names
+
+    def outer_loop(self, it, pat, stmts):
+        self.outer_count += 1
+        if self.outer_count > 1:
+            return
+        self.outer_iter_ok = it[2] == _OPERAND
+        if self.env.get(self.off) != _lin({"P": 1}):
+            self.problem("offset is modified before the loop over the operands")
+        saved = dict(self.env)
+        saved_mut = set(self.mut)
+        self.env[self.off] = _lin({"O": 1})
+        self.level = "outer"
+        self.outer_bind_ok = self.bind(pat, it[2]) and pat["k"] in ("struct", "ident")
+        self.block(stmts)
+        self.level = "pre"
+        self.off_after = self.env.get(self.off)
+        for n in saved:
+            if n != self.off and n in self.assigned_in(stmts) and n not in self.outer_locals:
+                self.problem("construct not understood: %s is carried from one operand to the next" % n)
+        self.env, self.mut = saved, saved_mut
+
+    def inner_loop(self, it, pat, stmts):
+        self.inner_count += 1
+        carried = sorted(n for n in self.assigned_in(stmts) if n in self.env)
+        saved = dict(self.env)
+        saved_mut = set(self.mut)
+        inits = {}
+        for n in carried:
+            inits[n] = self.env[n]
+            self.env[n] = _lin({"carried:" + n: 1})
+        self.level = "inner"
+        ok = self.bind(pat, it[2])
+        if it[1] == "ostates":
+            self.inner_bind_ok = self.inner_bind_ok and ok and pat["k"] == "tuple" and len(pat["elems"]) == 2
+        elif not ok:
+            self.problem("construct not understood: pattern %s" % pat_text(pat))
+        self.block(stmts)
+        self.level = "outer"
+        for n in carried:
+            c = _lin({"carried:" + n: 1})
+            t1 = self.env.get(n)
+            if n == self.off:
+                self.problem("the offset is modified inside the loop over the operand's states")
+                saved[n] = ("opaque", "offset modified in the inner loop")
+                continue
+            if t1 == c:
+                continue
+            self.carried[n] = {"init_ok": inits[n] == _lin(c=0) and n in self.outer_locals,
+                               "upd_ok": t1 == ("max", frozenset((c, _raw("id"))))}
+            saved[n] = _lin({"post:" + n: 1})
+        self.env, self.mut = saved, saved_mut
+
+    def edge_loop(self, it, pat, stmts):
+        kind = it[1]
+        for n in self.assigned_in(stmts):
+            if n in self.env:
+                self.problem("construct not understood: %s is modified in a loop over the %s of a state" % (n, kind))
+        saved = dict(self.env)
+        saved_mut = set(self.mut)
+        n0 = len(self.edge_inserts)
+        self.level = "edge"
+        if not self.bind(pat, it[2]):
+            self.problem("construct not understood: pattern %s" % pat_text(pat))
+        self.block(stmts)
+        self.level = "inner"
+        new = self.edge_inserts[n0:]
+        del self.edge_inserts[n0:]
+        self.env, self.mut = saved, saved_mut
+        if len(new) != 1 or new[0]["cond"] or new[0]["level"] != "edge":
+            self.problem("construct not understood: a loop over the %s of a state must insert exactly one element per iteration" % kind)
+            return
+        uid = new[0]["uid"]
+        info = self.colls[uid]
+        elem = ("tuple",) + tuple(new[0]["args"]) if kind == "edges" else (new[0]["args"][0] if len(new[0]["args"]) == 1 else ("opaque", "args"))
+        content = self.classify(kind, elem) if info["level"] == "inner" and not info.get("filled") else None
+        info["filled"] = True
+        for n, t in list(self.env.items()):
+            if t == ("coll", uid):
+                self.env[n] = content or ("opaque", "collection filled by a loop over %s" % kind)
+
+    # ---------------------------------------------------------------- the facts
+    def run(self):
+        facts = {}
+        inputs = self.item["sig"]["inputs"]
+        if len(inputs) != 2 or inputs[0].get("pat", {}).get("k") != "ident" or inputs[1].get("pat", {}).get("k") != "ident":
+            return facts, ["signature (nfas, mut offset)"]
+        self.off = inputs[1]["pat"]["name"]
+        self.env[inputs[0]["pat"]["name"]] = ("nfas",)
+        self.env[self.off] = _lin({"P": 1})
+        self.mut.add(self.off)
+        res = self.block(self.item["body"]["stmts"], top=True)
+
+        def need(cond, what):
+            facts[what] = bool(cond)
+            if not cond:
+                self.problems.append(what)
+            return cond
+        F = _MERGE_FACTS
+        if not need(self.outer_count == 1, F[0]):
+            return facts, self.problems
+        need(self.outer_iter_ok, F[1])
+        if not need(self.outer_bind_ok, F[2]):
+            return facts, self.problems
+        ok = res[0] == "tuple" and len(res) == 3 and all(x[0] == "coll" and self.colls[x[1]]["level"] == "pre" and not self.colls[x[1]]["pure"]
+                                                          for x in res[1:]) and res[1] != res[2]
+        if not need(ok, F[3]):
+            return facts, self.problems
+        a, b = res[1][1], res[2][1]
+        for ev in self.pushes + self.inserts:
+            if ev["uid"] not in (a, b) and self.colls[ev["uid"]]["level"] == "pre":
+                self.problem("construct not understood: another collection is filled next to states_out / ends_out")
+        pushes = [p for p in self.pushes if p["uid"] == b]
+        if [p for p in self.pushes if p["uid"] == a] or [p for p in self.inserts if p["uid"] == b]:
+            self.problem("construct not understood: states_out / ends_out are filled the other way round")
+        need(len(pushes) == 1 and pushes[0]["level"] == "outer" and not pushes[0]["cond"] and
+             pushes[0]["t"] == ("tuple", _shift_of("start"), _shift_of("stop")), F[4])
+        if not need(self.inner_count >= 1 and self.other_loops == 0, F[5]):
+            return facts, self.problems
+        if not need(self.inner_bind_ok, F[6]):
+            return facts, self.problems
+        # the offset after the operand: O + <max of the original ids> + k, k >= 1
+        feeder = None
+        adv = False
+        t = self.off_after
+        if t is not None and t[0] == "lin":
+            atoms = dict(t[1])
+            if atoms.pop("O", 0) == 1 and len(atoms) == 1 and list(atoms.values()) == [1] and t[2] >= 1:
+                feeder = list(atoms)[0]
+                adv = feeder == "MAXALL" or (feeder.startswith("post:") and feeder[5:] in self.carried)
+        if adv and feeder == "MAXALL":
+            init_ok = upd_ok = True
+        else:
+            if adv:
+                c = self.carried[feeder[5:]]
+            elif len(self.carried) == 1:
+                c = list(self.carried.values())[0]
+            else:
+                c = {"init_ok": False, "upd_ok": False}
+            init_ok, upd_ok = c["init_ok"], c["upd_ok"]
+        need(init_ok, F[7])
+        need(upd_ok, F[8])
+        ins = [x for x in self.inserts if x["uid"] == a]
+        one = len(ins) == 1 and ins[0]["level"] == "inner" and not ins[0]["cond"]
+        k = ins[0]["k"] if one else ("none",)
+        v = ins[0]["v"] if one and ins[0]["v"][0] == "state" else ("state", None, None, None)
+        ids = need(one and k == _shift_of("id"), F[9])
+        edges = need(one and v[1] == ("sedges",), F[10])
+        eps = need(one and v[2] == ("seps",), F[11])
+        need(one and ids and edges and eps and v[3] == ("otag",), F[12])
+        need(adv, F[13])
+        return facts, self.problems
+
+
+def _read_merge_states(item, local=None):
+    """facts about merge_states; returns (facts, problems)"""
+    return _MergeEval(item, local).run()
+
+
+def _operand_list(a):
+    """[x, y] · vec![x, y] · [x, y].into_iter() · once(x).chain(once(y)) -> [x, y] (the operands in order), else None"""
+    a = _unref(a)
+    while a.get("k") == "mcall" and a["m"] in ("into_iter", "to_vec", "into") and not a["args"]:
+        a = _unref(a["recv"])
+    if a.get("k") == "array":
+        return a["elems"]
+    if a.get("k") == "macro" and a.get("short") == "vec" and isinstance(a.get("args"), list) and not (a.get("extra") or {}).get("repeat"):
+        return a["args"]
+
+    def single(x):
+        x = _unref(x)
+        if x.get("k") == "call" and _is_path(x["f"]) and x["f"]["p"].split("::")[-1] in ("once", "Some") and len(x["args"]) == 1:
+            return x["args"][0]
+        return None
+    if a.get("k") == "mcall" and a["m"] == "chain" and len(a["args"]) == 1:
+        x, y = single(a["recv"]), single(a["args"][0])
+        if x is not None and y is not None:
+            return [x, y]
+    return None
 
 
 class Wiring:
@@ -1885,6 +3299,7 @@ def read_wiring(src):
         return _WIRING_CACHE[key][1]
     w = Wiring()
     fns = {}
+    local = _LocalDefs(src)
     for (f, s, tr, it, t) in src.fns:
         if t or f != AUTOMATA or base_name(s) != "NFA":
             continue
@@ -1902,9 +3317,9 @@ def read_wiring(src):
         w.lines[c] = it.get("line") or it["body"].get("line")
         try:
             if c == "from":
-                w.templates[c] = _read_from_str(it)
+                w.templates[c] = _read_from_str(it, local)
             else:
-                w.templates[c] = _RoleEval(c, it, s).template()
+                w.templates[c] = _RoleEval(c, it, s, local).template()
         except WiringError as ex:
             w.problems.append((c, str(ex)))
         except (KeyError, IndexError, TypeError) as ex:
@@ -1914,7 +3329,7 @@ def read_wiring(src):
         w.merge["problems"].append("%d definitions of merge_states" % len(ms))
     else:
         try:
-            w.merge["facts"], w.merge["problems"] = _read_merge_states(ms[0][2])
+            w.merge["facts"], w.merge["problems"] = _read_merge_states(ms[0][2], local)
         except (KeyError, IndexError, TypeError, AttributeError) as ex:
             w.merge["problems"].append("construct not understood (%s: %s)" % (type(ex).__name__, ex))
         w.lines["merge_states"] = ms[0][2]["body"].get("line")
@@ -1923,13 +3338,15 @@ def read_wiring(src):
         if len(cands) != 1:
             continue
         body = cands[0][2]["body"]["stmts"]
-        if len(body) == 1 and body[0]["k"] == "expr" and not body[0]["semi"]:
+        if len(body) == 1 and body[0]["k"] == "expr" and (not body[0]["semi"] or body[0]["e"]["k"] == "return"):
             e = body[0]["e"]
+            if e["k"] == "return" and e.get("e") is not None:
+                e = e["e"]
             c = comb_of_node(e)
-            if c in ("sequence", "choice") and len(e["args"]) == 1 and e["args"][0]["k"] == "array":
-                el = e["args"][0]["elems"]
-                params = [p["pat"]["name"] for p in cands[0][2]["sig"]["inputs"] if p["name"] != "self"]
-                if len(el) == 2 and _is_path(el[0], "self") and len(params) == 1 and _is_path(el[1], params[0]):
+            if c in ("sequence", "choice") and len(e["args"]) == 1:
+                el = _operand_list(e["args"][0])
+                params = [p["pat"].get("name") for p in cands[0][2]["sig"]["inputs"] if p["name"] != "self"]
+                if el is not None and len(el) == 2 and _is_path(el[0], "self") and len(params) == 1 and _is_path(el[1], params[0]):
                     w.delegations[op] = c
     _WIRING_CACHE.clear()
     _WIRING_CACHE[key] = (src, w)
